@@ -11,12 +11,16 @@
                            does not care about nesting limits) the values read are the values encoded;
    [element_count_correct], [fixed_array_correct]  get_element_count / get_fixed_array.
    No Fault, no failed assertion, no fuel exhaustion on any of these inputs. *)
-From DV Require Import Lib.Base Gen.Tables Wire.Body Wire.Utf8 Wire.Names Wire.Reader Spec.Codec Spec.NamesSpec Spec.Utf8Spec Wire.HeaderEdit
+From DV Require Import Lib.Base Gen.Tables Wire.Body Wire.Message Wire.Utf8 Wire.Names Wire.Reader Spec.Codec Spec.NamesSpec Spec.Utf8Spec Wire.HeaderEdit
   Proofs.CodecBasics Proofs.CodecWf Proofs.CodecRoundtrip Proofs.BodyCursor Proofs.BodyComplete Proofs.BodyLocal
-  Proofs.NamesProofs Proofs.SigRoundtrip Proofs.SigAutomaton Proofs.BodySound Proofs.WireClean.
+  Proofs.NamesProofs Proofs.Utf8Proofs Proofs.CodecDecEq Proofs.SigRoundtrip Proofs.SigAutomaton Proofs.BodySound Proofs.WireClean
+  Proofs.CodecMessage Proofs.LoaderProofs Proofs.LoaderComplete Proofs.WireClean2.
 From Coq Require Import ZArith ZifyBool ZifyN ZifyNat Arith.
 Local Open Scope N_scope.
 Ltac Zify.zify_post_hook ::= Z.div_mod_to_equations.
+
+Ltac rsimp := cbn [set_finished set_tpos set_vpos r_klass r_vpos r_tpos r_finished r_tval r_start r_lenoff].
+Ltac nl := unfold nlen; cbn [length]; rewrite ?app_length; cbn [length]; lia.
 
 (* ================= A. raw access ================================================== *)
 Lemma bf_0 s : bytes_from s 0 = s.
@@ -187,6 +191,17 @@ Proof.
   replace (b =? 0) with false by lia. replace (b =? o) with false by lia. replace (b =? c) with false by lia. reflexivity.
 Qed.
 
+Lemma scan_open o c d r : bracket o c ->
+  sig_scan o c d (o :: r) = match sig_scan o c (S d) r with inl n => inl (n + 1) | inr e => inr e end.
+Proof. intros [[-> ->]|[-> ->]]; reflexivity. Qed.
+
+Lemma scan_close o c d r : bracket o c ->
+  sig_scan o c (S (S d)) (c :: r) = match sig_scan o c (S d) r with inl n => inl (n + 1) | inr e => inr e end.
+Proof. intros [[-> ->]|[-> ->]]; reflexivity. Qed.
+
+Lemma scan_close1 o c r : bracket o c -> sig_scan o c 1 (c :: r) = inl 1.
+Proof. intros [[-> ->]|[-> ->]]; reflexivity. Qed.
+
 Definition SCAN (t : ty) : Prop := forall o c d rest, bracket o c ->
   sig_scan o c (S d) (print_ty t ++ rest) =
   match sig_scan o c (S d) rest with inl n => inl (n + nlen (print_ty t)) | inr e => inr e end.
@@ -196,9 +211,9 @@ Lemma scan_list ts : Forall SCAN ts -> forall o c d rest, bracket o c ->
   match sig_scan o c (S d) rest with inl n => inl (n + nlen (flat_map print_ty ts)) | inr e => inr e end.
 Proof.
   induction 1 as [|x r Hx Hr IH]; intros o c d rest B.
-  - cbn [flat_map app]. destruct (sig_scan o c (S d) rest); [f_equal; cbn; lia | reflexivity].
+  - cbn [flat_map app]. destruct (sig_scan o c (S d) rest); [f_equal; nl | reflexivity].
   - cbn [flat_map]. rewrite <- app_assoc. rewrite (Hx o c d _ B). rewrite (IH o c d rest B).
-    destruct (sig_scan o c (S d) rest); [f_equal; rewrite nlen_app; lia | reflexivity].
+    destruct (sig_scan o c (S d) rest); [f_equal; nl | reflexivity].
 Qed.
 
 Lemma scan_print : forall t, tygood t = true -> SCAN t.
@@ -206,11 +221,11 @@ Proof.
   induction t as [c0| |t IH|ts IH|k v IH] using ty_ind'; cbn [tygood]; intros G o c d rest B.
   - destruct (basic_code_ne c0 G) as (? & ? & ? & ? & ? & ? & ?). cbn [print_ty app].
     rewrite (scan_other o c (S d) c0 rest B) by (destruct B as [[-> ->]|[-> ->]]; assumption).
-    destruct (sig_scan o c (S d) rest); [f_equal; cbn; lia | reflexivity].
+    destruct (sig_scan o c (S d) rest); [f_equal; nl | reflexivity].
   - cbn [print_ty app]. rewrite (scan_other o c (S d) 118 rest B) by (destruct B as [[-> ->]|[-> ->]]; discriminate).
-    destruct (sig_scan o c (S d) rest); [f_equal; cbn; lia | reflexivity].
+    destruct (sig_scan o c (S d) rest); [f_equal; nl | reflexivity].
   - cbn [print_ty app]. rewrite (scan_other o c (S d) 97 _ B) by (destruct B as [[-> ->]|[-> ->]]; discriminate). rewrite (IH G o c d rest B).
-    destruct (sig_scan o c (S d) rest); [f_equal; rewrite nlen_cons; lia | reflexivity].
+    destruct (sig_scan o c (S d) rest); [f_equal; nl | reflexivity].
   - apply andb_true_iff in G. destruct G as [_ G].
     assert (HF : Forall SCAN ts).
     { clear -IH G. induction IH as [|x r Hx Hr IHr]; [constructor|]. cbn [forallb] in G. apply andb_true_iff in G. destruct G as [G1 G2].
@@ -218,13 +233,14 @@ Proof.
     cbn [print_ty app]. rewrite <- app_assoc. cbn [app].
     destruct B as [[-> ->]|[-> ->]].
     + (* our own bracket kind: depth goes up and comes back *)
-      cbn [sig_scan N.eqb Pos.eqb]. rewrite (scan_list ts HF 40 41 (S d) _ (or_introl (conj eq_refl eq_refl))).
-      cbn [sig_scan N.eqb Pos.eqb].
-      destruct (sig_scan 40 41 (S d) rest); [f_equal; rewrite nlen_cons, nlen_app; cbn; lia | reflexivity].
+      rewrite (scan_open 40 41 (S d) _ (or_introl (conj eq_refl eq_refl))).
+      rewrite (scan_list ts HF 40 41 (S d) _ (or_introl (conj eq_refl eq_refl))).
+      rewrite (scan_close 40 41 d _ (or_introl (conj eq_refl eq_refl))).
+      destruct (sig_scan 40 41 (S d) rest); [f_equal; nl | reflexivity].
     + rewrite (scan_other 123 125 (S d) 40 _ (or_intror (conj eq_refl eq_refl))) by discriminate.
       rewrite (scan_list ts HF 123 125 d _ (or_intror (conj eq_refl eq_refl))).
       rewrite (scan_other 123 125 (S d) 41 _ (or_intror (conj eq_refl eq_refl))) by discriminate.
-      destruct (sig_scan 123 125 (S d) rest); [f_equal; rewrite nlen_cons, nlen_app; cbn; lia | reflexivity].
+      destruct (sig_scan 123 125 (S d) rest); [f_equal; nl | reflexivity].
   - apply andb_true_iff in G. destruct G as [Gk Gv]. destruct (basic_code_ne k Gk) as (? & ? & ? & ? & ? & ? & ?).
     cbn [print_ty app]. rewrite <- app_assoc. cbn [app].
     destruct B as [[-> ->]|[-> ->]].
@@ -232,12 +248,12 @@ Proof.
       rewrite (scan_other 40 41 (S d) k _ (or_introl (conj eq_refl eq_refl))) by assumption.
       rewrite (IH Gv 40 41 d _ (or_introl (conj eq_refl eq_refl))).
       rewrite (scan_other 40 41 (S d) 125 _ (or_introl (conj eq_refl eq_refl))) by discriminate.
-      destruct (sig_scan 40 41 (S d) rest); [f_equal; rewrite !nlen_cons, nlen_app; cbn; lia | reflexivity].
-    + cbn [sig_scan N.eqb Pos.eqb].
+      destruct (sig_scan 40 41 (S d) rest); [f_equal; nl | reflexivity].
+    + rewrite (scan_open 123 125 (S d) _ (or_intror (conj eq_refl eq_refl))).
       rewrite (scan_other 123 125 (S (S d)) k _ (or_intror (conj eq_refl eq_refl))) by assumption.
       rewrite (IH Gv 123 125 (S d) _ (or_intror (conj eq_refl eq_refl))).
-      cbn [sig_scan N.eqb Pos.eqb].
-      destruct (sig_scan 123 125 (S d) rest); [f_equal; rewrite !nlen_cons, nlen_app; cbn; lia | reflexivity].
+      rewrite (scan_close 123 125 d _ (or_intror (conj eq_refl eq_refl))).
+      destruct (sig_scan 123 125 (S d) rest); [f_equal; nl | reflexivity].
 Qed.
 
 Lemma scan_prints ts : forallb tygood ts = true -> Forall SCAN ts.
@@ -262,16 +278,16 @@ Proof.
     change ((40 =? DBUS_STRUCT_END_CHAR) || (40 =? DBUS_DICT_ENTRY_END_CHAR)) with false. cbv iota.
     change (40 =? DBUS_STRUCT_BEGIN_CHAR) with true. cbv iota.
     change DBUS_STRUCT_BEGIN_CHAR with 40. change DBUS_STRUCT_END_CHAR with 41.
-    rewrite <- app_assoc. rewrite (scan_list ts (scan_prints ts G) 40 41 0 _ (or_introl (conj eq_refl eq_refl))).
-    cbn [app sig_scan N.eqb Pos.eqb]. f_equal. rewrite nlen_cons, nlen_app. cbn. lia.
+    rewrite <- app_assoc. rewrite (scan_list ts (scan_prints ts G) 40 41 0%nat _ (or_introl (conj eq_refl eq_refl))).
+    cbn [app]. rewrite (scan_close1 40 41 _ (or_introl (conj eq_refl eq_refl))). f_equal. nl.
   - apply andb_true_iff in G. destruct G as [Gk Gv]. destruct (basic_code_ne k Gk) as (? & ? & ? & ? & ? & ? & ?).
     cbn [print_ty app sig_skip]. change (123 =? DBUS_TYPE_ARRAY) with false. cbv iota.
     change ((123 =? DBUS_STRUCT_END_CHAR) || (123 =? DBUS_DICT_ENTRY_END_CHAR)) with false. cbv iota.
     change (123 =? DBUS_STRUCT_BEGIN_CHAR) with false. cbv iota. change (123 =? DBUS_DICT_ENTRY_BEGIN_CHAR) with true. cbv iota.
     change DBUS_DICT_ENTRY_BEGIN_CHAR with 123. change DBUS_DICT_ENTRY_END_CHAR with 125.
     rewrite (scan_other 123 125 1 k _ (or_intror (conj eq_refl eq_refl))) by assumption.
-    rewrite <- app_assoc. rewrite (scan_print v Gv 123 125 0 _ (or_intror (conj eq_refl eq_refl))).
-    cbn [app sig_scan N.eqb Pos.eqb]. f_equal. rewrite !nlen_cons, nlen_app. cbn. lia.
+    rewrite <- app_assoc. rewrite (scan_print v Gv 123 125 0%nat _ (or_intror (conj eq_refl eq_refl))).
+    cbn [app]. rewrite (scan_close1 123 125 _ (or_intror (conj eq_refl eq_refl))). f_equal. nl.
 Qed.
 
 Lemma sig_next_print s p t tl : tygood t = true -> bytes_from s p = print_ty t ++ tl -> sig_next s p = inl (p + nlen (print_ty t)).
@@ -289,3 +305,1468 @@ Proof.
   - reflexivity.
   - reflexivity.
 Qed.
+
+(* ================= C. what the reader needs of a value =============================== *)
+Fixpoint rwf (le : bool) (pos : N) (v : val) {struct v} : bool :=
+  let rwfs := (fix rwfs (vs : list val) (pos : N) : bool :=
+                 match vs with
+                 | [] => true
+                 | x :: r => rwf le pos x && rwfs r (pos + nlen (enc le x pos))
+                 end) in
+  match v with
+  | VNum c n => match fixed_size c with Some sz => n <? 256 ^ sz | None => false end
+  | VStr c s => nz s && (if c =? 103 then nlen s <? 256 else ((c =? 115) || (c =? 111)) && (nlen s <? 4294967296))
+  | VArr et vs =>
+      let start := pos + pad_amount pos 4 + 4 + pad_amount (pos + pad_amount pos 4 + 4) (spec_align et) in
+      ty_okb (TArray et) && forallb (fun x => ty_eqb (ty_of_val x) et) vs &&
+      (nlen (encs le vs start) <? 4294967296) && rwfs vs start
+  | VStruct fs => negb (isnil fs) && rwfs fs (pos + pad_amount pos 8)
+  | VDictE k x => is_basic_val k && rwfs [k; x] (pos + pad_amount pos 8)
+  | VVar t x => ty_eqb (ty_of_val x) t && ty_okb t && (nlen (print_ty t) <? 256) && rwf le (pos + (nlen (print_ty t) + 2)) x
+  end.
+
+Fixpoint rwfs (le : bool) (vs : list val) (pos : N) : bool :=
+  match vs with
+  | [] => true
+  | x :: r => rwf le pos x && rwfs le r (pos + nlen (enc le x pos))
+  end.
+
+Lemma rwfs_inner le : forall vs pos,
+  (fix rwfs (vs : list val) (pos : N) : bool :=
+     match vs with
+     | [] => true
+     | x :: r => rwf le pos x && rwfs r (pos + nlen (enc le x pos))
+     end) vs pos = rwfs le vs pos.
+Proof. induction vs as [|x r IH]; intros; [reflexivity|]. cbn [rwfs]. rewrite IH. reflexivity. Qed.
+
+Lemma rwf_arr le pos et vs :
+  rwf le pos (VArr et vs) =
+  ty_okb (TArray et) && forallb (fun x => ty_eqb (ty_of_val x) et) vs && (nlen (encs le vs (arr_start pos et)) <? 4294967296) &&
+  rwfs le vs (arr_start pos et).
+Proof. cbn [rwf]. rewrite (rwfs_inner le vs). reflexivity. Qed.
+
+Lemma rwf_struct le pos fs : rwf le pos (VStruct fs) = negb (isnil fs) && rwfs le fs (pos + pad_amount pos 8).
+Proof. cbn [rwf]. rewrite (rwfs_inner le fs). reflexivity. Qed.
+
+Lemma rwf_dict le pos k x : rwf le pos (VDictE k x) = is_basic_val k && rwfs le [k; x] (pos + pad_amount pos 8).
+Proof. cbn [rwf]. rewrite (rwfs_inner le [k; x]). reflexivity. Qed.
+
+(* ---- the types of rwf values ------------------------------------------------------- *)
+Lemma fixed_basic c sz : fixed_size c = Some sz -> is_basic_code c = true.
+Proof.
+  intros H. apply fixed_codes in H.
+  destruct H as [[-> _] | [[[-> | ->] _] | [[[-> | [-> | [-> | ->]]] _] | [[-> | [-> | ->]] _]]]]; reflexivity.
+Qed.
+
+Lemma rwf_tygood le : forall v pos, rwf le pos v = true -> tygood (ty_of_val v) = true.
+Proof.
+  induction v as [c n|c s|et vs IH|fs IH|k x IHk IHx|t x IHx] using val_ind'; intros pos H.
+  - cbn [rwf] in H. destruct (fixed_size c) as [sz|] eqn:E; [|discriminate]. exact (fixed_basic c sz E).
+  - cbn [rwf] in H. apply andb_true_iff in H. destruct H as [_ H]. cbn [ty_of_val tygood].
+    destruct (c =? 103) eqn:E; [apply N.eqb_eq in E; subst c; reflexivity|].
+    apply andb_true_iff in H. destruct H as [H _]. apply orb_true_iff in H. destruct H as [H|H]; apply N.eqb_eq in H; subst c; reflexivity.
+  - rewrite rwf_arr in H. apply andb_true_iff in H. destruct H as [H _]. apply andb_true_iff in H. destruct H as [H _].
+    apply andb_true_iff in H. destruct H as [H _]. cbn [ty_of_val]. apply ty_okb_tygood. exact H.
+  - rewrite rwf_struct in H. apply andb_true_iff in H. destruct H as [Hne Hs]. cbn [ty_of_val tygood].
+    apply andb_true_iff. split; [destruct fs; [discriminate|reflexivity]|].
+    clear Hne. revert Hs. generalize (pos + pad_amount pos 8). induction IH as [|f r Hf Hr IHr]; intros p Hs; [reflexivity|].
+    cbn [rwfs] in Hs. apply andb_true_iff in Hs. destruct Hs as [H1 H2]. cbn [map forallb]. rewrite (Hf _ H1). exact (IHr _ H2).
+  - rewrite rwf_dict in H. apply andb_true_iff in H. destruct H as [Hk Hs]. cbn [rwfs] in Hs.
+    apply andb_true_iff in Hs. destruct Hs as [H1 Hs]. apply andb_true_iff in Hs. destruct Hs as [H2 _].
+    cbn [ty_of_val tygood]. rewrite (IHx _ H2), andb_true_r.
+    specialize (IHk _ H1). destruct k; try discriminate; exact IHk.
+  - reflexivity.
+Qed.
+
+Lemma ty_okb_elem t : ty_okb t = true -> ty_okb (TArray t) = true.
+Proof. destruct t; cbn [ty_okb]; auto. discriminate. Qed.
+
+(* ---- every rwf value occupies at least one byte --------------------------------------- *)
+Lemma rwf_nonempty le : forall v pos, rwf le pos v = true -> 0 < nlen (enc le v pos).
+Proof.
+  induction v as [c n|c s|et vs IH|fs IH|k x IHk IHx|t x IHx] using val_ind'; intros pos H.
+  - cbn [rwf] in H. rewrite enc_num. destruct (fixed_size c) as [sz|] eqn:Hsz; [|discriminate].
+    apply fixed_size_pos in Hsz. rewrite nlen_app, nlen_zeros, bytes_of_length. lia.
+  - rewrite enc_str. destruct (c =? 103).
+    + rewrite nlen_cons. lia.
+    + rewrite !nlen_app, nlen_zeros, bytes_of_length. lia.
+  - rewrite enc_arr. cbv zeta. rewrite !nlen_app, nlen_zeros, bytes_of_length. lia.
+  - rewrite rwf_struct in H. rewrite enc_struct. destruct fs as [|f fs']; [discriminate|]. cbn [isnil negb andb rwfs] in H.
+    apply andb_true_iff in H. destruct H as [Hf _]. inversion IH as [|? ? Pf _]; subst.
+    specialize (Pf _ Hf). cbn [encs]. rewrite !nlen_app. lia.
+  - rewrite rwf_dict in H. rewrite enc_dict. apply andb_true_iff in H. destruct H as [_ H]. cbn [rwfs] in H.
+    apply andb_true_iff in H. destruct H as [Hk _]. specialize (IHk _ Hk). cbn [encs]. rewrite !nlen_app. lia.
+  - rewrite enc_var. cbv zeta. rewrite nlen_app, nlen_cons. lia.
+Qed.
+
+Lemma rwfs_length le : forall vs pos, rwfs le vs pos = true -> (length vs <= length (encs le vs pos))%nat.
+Proof.
+  induction vs as [|x r IH]; intros pos H; [cbn; lia|].
+  cbn [rwfs] in H. apply andb_true_iff in H. destruct H as [Hx Hr].
+  pose proof (rwf_nonempty le x _ Hx) as Hn. specialize (IH _ Hr). cbn [encs length]. rewrite app_length. unfold nlen in Hn. lia.
+Qed.
+
+(* ---- alignment padding in front of a value ---------------------------------------------- *)
+Lemma rwf_align le v pos : rwf le pos v = true ->
+  spec_align (ty_of_val v) = 1 \/ spec_align (ty_of_val v) = 2 \/ spec_align (ty_of_val v) = 4 \/ spec_align (ty_of_val v) = 8.
+Proof. intros H. exact (proj2 (tygood_align _ (rwf_tygood le v pos H))). Qed.
+
+Lemma rwf_enc_split le v pos : rwf le pos v = true ->
+  enc le v pos = zeros (pad_amount pos (spec_align (ty_of_val v))) ++ enc le v (pos + pad_amount pos (spec_align (ty_of_val v))).
+Proof.
+  intros H. pose proof (rwf_align le v pos H) as Hal.
+  destruct v as [c n|c s|et vs|fs|k x|t x]; cbn [ty_of_val spec_align] in *.
+  - cbn [rwf] in H. destruct (fixed_size c) as [sz|] eqn:Hsz; [|discriminate].
+    rewrite !enc_num, Hsz. rewrite (pad_amount_aligned pos sz Hal). cbn [zeros repeat N.to_nat app]. reflexivity.
+  - cbn [rwf] in H. apply andb_true_iff in H. destruct H as [_ H]. rewrite !enc_str.
+    destruct (c =? 103) eqn:E3.
+    + apply N.eqb_eq in E3. subst c. cbn [fixed_size N.eqb Pos.eqb orb]. change (pad_amount pos 1) with ((1 - pos mod 1) mod 1).
+      replace ((1 - pos mod 1) mod 1) with 0 by (rewrite N.mod_1_r; reflexivity). reflexivity.
+    + assert (Hc : c = 115 \/ c = 111).
+      { apply andb_true_iff in H. destruct H as [H _]. apply orb_true_iff in H. destruct H as [H|H]; apply N.eqb_eq in H; auto. }
+      replace (match fixed_size c with Some n => n | None => 4 end) with 4 in * by (destruct Hc as [-> | ->]; reflexivity).
+      rewrite (pad_amount_aligned pos 4 ltac:(lia)). cbn [zeros repeat N.to_nat app]. reflexivity.
+  - rewrite !enc_arr. cbv zeta. rewrite (pad_amount_aligned pos 4 ltac:(lia)). rewrite N.add_0_r. cbn [zeros repeat N.to_nat app]. reflexivity.
+  - rewrite !enc_struct. rewrite (pad_amount_aligned pos 8 ltac:(lia)). rewrite N.add_0_r. cbn [zeros repeat N.to_nat app]. reflexivity.
+  - rewrite !enc_dict. rewrite (pad_amount_aligned pos 8 ltac:(lia)). rewrite N.add_0_r. cbn [zeros repeat N.to_nat app]. reflexivity.
+  - change (pad_amount pos 1) with ((1 - pos mod 1) mod 1). replace ((1 - pos mod 1) mod 1) with 0 by (rewrite N.mod_1_r; reflexivity).
+    rewrite N.add_0_r. reflexivity.
+Qed.
+
+Lemma rwf_split le v pos : rwf le (pos + pad_amount pos (spec_align (ty_of_val v))) v = rwf le pos v.
+Proof.
+  destruct v as [c n|c s|et vs|fs|k x|t x]; cbn [ty_of_val spec_align].
+  - reflexivity.
+  - reflexivity.
+  - rewrite !rwf_arr. unfold arr_start. rewrite (pad_amount_aligned pos 4 ltac:(lia)). rewrite N.add_0_r. reflexivity.
+  - rewrite !rwf_struct. rewrite (pad_amount_aligned pos 8 ltac:(lia)). rewrite N.add_0_r. reflexivity.
+  - rewrite !rwf_dict. rewrite (pad_amount_aligned pos 8 ltac:(lia)). rewrite N.add_0_r. reflexivity.
+  - change (pad_amount pos 1) with ((1 - pos mod 1) mod 1). replace ((1 - pos mod 1) mod 1) with 0 by (rewrite N.mod_1_r; reflexivity).
+    rewrite N.add_0_r. reflexivity.
+Qed.
+
+(* ---- nesting fuel: every level costs a byte of signature or of body ------------------------ *)
+Definition tysig (vs : list val) : bytes := flat_map print_ty (map ty_of_val vs).
+
+Lemma heights_bound_list le (vs : list val) :
+  Forall (fun v => forall pos, rwf le pos v = true -> (height v <= length (print_ty (ty_of_val v)) + length (enc le v pos))%nat) vs ->
+  forall pos, rwfs le vs pos = true -> (heights vs <= length (tysig vs) + length (encs le vs pos))%nat.
+Proof.
+  induction 1 as [|x r Hx Hr IH]; intros pos H; [cbn; lia|].
+  cbn [rwfs] in H. apply andb_true_iff in H. destruct H as [H1 H2]. specialize (Hx _ H1). specialize (IH _ H2).
+  rewrite heights_cons. unfold tysig in *. cbn [map flat_map encs]. rewrite !app_length. lia.
+Qed.
+
+Lemma heights_bound_elems le et (vs : list val) :
+  Forall (fun v => forall pos, rwf le pos v = true -> (height v <= length (print_ty (ty_of_val v)) + length (enc le v pos))%nat) vs ->
+  forall pos, rwfs le vs pos = true -> forallb (fun x => ty_eqb (ty_of_val x) et) vs = true ->
+    (heights vs <= length (print_ty et) + length (encs le vs pos))%nat.
+Proof.
+  induction 1 as [|x r Hx Hr IH]; intros pos H Ht; [cbn; lia|].
+  cbn [rwfs] in H. apply andb_true_iff in H. destruct H as [H1 H2].
+  cbn [forallb] in Ht. apply andb_true_iff in Ht. destruct Ht as [T1 T2]. apply ty_eqb_eq in T1.
+  specialize (Hx _ H1). specialize (IH _ H2 T2). rewrite T1 in Hx.
+  rewrite heights_cons. cbn [encs]. rewrite !app_length. lia.
+Qed.
+
+Lemma height_bound le : forall v pos, rwf le pos v = true -> (height v <= length (print_ty (ty_of_val v)) + length (enc le v pos))%nat.
+Proof.
+  induction v as [c n|c s|et vs IH|fs IH|k x IHk IHx|t x IHx] using val_ind'; intros pos H.
+  - cbn [height]. lia.
+  - cbn [height]. lia.
+  - rewrite rwf_arr in H. apply andb_true_iff in H. destruct H as [H Hs]. apply andb_true_iff in H. destruct H as [H _].
+    apply andb_true_iff in H. destruct H as [_ Ht].
+    pose proof (heights_bound_elems le et vs IH _ Hs Ht) as B. cbn [height]. fold (heights vs).
+    rewrite enc_arr. cbv zeta. fold (arr_start pos et). cbn [ty_of_val print_ty length]. rewrite !app_length. lia.
+  - rewrite rwf_struct in H. apply andb_true_iff in H. destruct H as [_ Hs].
+    pose proof (heights_bound_list le fs IH _ Hs) as B. cbn [height]. fold (heights fs).
+    rewrite enc_struct. cbn [ty_of_val print_ty length]. rewrite !app_length. unfold tysig in B. cbn [length]. lia.
+  - rewrite rwf_dict in H. apply andb_true_iff in H. destruct H as [Hk Hs].
+    pose proof (heights_bound_list le [k; x] (Forall_cons k IHk (Forall_cons x IHx (Forall_nil _))) _ Hs) as B.
+    cbn [height]. cbn [heights fold_right] in B. rewrite enc_dict. cbn [ty_of_val print_ty length]. rewrite !app_length.
+    unfold tysig in B. cbn [map flat_map] in B. rewrite !app_length in B. cbn [length] in *.
+    assert (Hkl : length (print_ty (ty_of_val k)) = 1%nat) by (destruct k; try discriminate; reflexivity). lia.
+  - cbn [rwf] in H. apply andb_true_iff in H. destruct H as [H Hx]. apply andb_true_iff in H. destruct H as [H _].
+    apply andb_true_iff in H. destruct H as [Ht _]. apply ty_eqb_eq in Ht.
+    specialize (IHx _ Hx). rewrite Ht in IHx. cbn [height]. rewrite enc_var. cbv zeta. cbn [ty_of_val print_ty length].
+    rewrite !app_length. cbn [length]. rewrite app_length. cbn [length].
+    replace (pos + nlen (nlen (print_ty t) :: print_ty t ++ [0])) with (pos + (nlen (print_ty t) + 2)) by nl. lia.
+Qed.
+
+Lemma heights_bound le vs pos : rwfs le vs pos = true -> (heights vs <= length (tysig vs) + length (encs le vs pos))%nat.
+Proof. apply heights_bound_list. apply Forall_forall. intros v _. apply height_bound. Qed.
+
+(* ---- rwf follows from the validator's guarantee [wfx] (hence from the specification's [wfb]) ---- *)
+Lemma ty_okb_struct_fields ts : ty_okb (TStruct ts) = true -> forallb (fun t => ty_okb (TArray t)) ts = true.
+Proof.
+  cbn [ty_okb]. intros H. apply andb_true_iff in H. destruct H as [_ H]. rewrite forallb_forall in *. intros t Hin.
+  apply ty_okb_elem. apply H. exact Hin.
+Qed.
+
+Lemma sig_model_okb t : sig_model t = true -> ty_okb t = true /\ nlen (print_ty t) < 256.
+Proof.
+  unfold sig_model. intros H. apply andb_true_iff in H. destruct H as [H Hp]. apply andb_true_iff in H. destruct H as [Hl _].
+  destruct (parse_sig (print_ty t)) as [[|t' [|? ?]]|] eqn:P; try discriminate. apply ty_eqb_eq in Hp. subst t'.
+  apply parse_sig_sound in P. destruct P as [_ P]. cbn [forallb] in P. rewrite andb_true_r in P. split; [exact P | lia].
+Qed.
+
+Lemma wfxs_rwfs le : forall vs,
+  Forall (fun v => forall depth pos, wfx le depth pos v = true -> ty_okb (TArray (ty_of_val v)) = true -> rwf le pos v = true) vs ->
+  forall depth pos, wfxs le vs depth pos = true -> forallb (fun t => ty_okb (TArray t)) (map ty_of_val vs) = true -> rwfs le vs pos = true.
+Proof.
+  induction 1 as [|x r Hx Hr IH]; intros depth pos H Ht; [reflexivity|].
+  cbn [wfxs] in H. apply andb_true_iff in H. destruct H as [H1 H2].
+  cbn [map forallb] in Ht. apply andb_true_iff in Ht. destruct Ht as [T1 T2].
+  cbn [rwfs]. rewrite (Hx _ _ H1 T1). exact (IH _ _ H2 T2).
+Qed.
+
+Theorem wfx_rwf le : forall v depth pos, wfx le depth pos v = true -> ty_okb (TArray (ty_of_val v)) = true -> rwf le pos v = true.
+Proof.
+  induction v as [c n|c s|et vs IH|fs IH|k x IHk IHx|t x IHx] using val_ind'; intros depth pos H Hty.
+  - cbn [wfx] in H. apply andb_true_iff in H. destruct H as [_ H]. cbn [rwf].
+    destruct (fixed_size c) as [sz|]; [|discriminate]. apply andb_true_iff in H. exact (proj1 H).
+  - cbn [wfx] in H. apply andb_true_iff in H. destruct H as [_ H]. cbn [rwf].
+    destruct (c =? 115) eqn:E1.
+    { apply andb_true_iff in H. destruct H as [Hu Hl]. rewrite (spec_utf8_nz s Hu). replace (c =? 103) with false by lia. rewrite Hl. reflexivity. }
+    destruct (c =? 111) eqn:E2.
+    { apply andb_true_iff in H. destruct H as [Hu Hl]. rewrite (spec_path_nz s Hu). replace (c =? 103) with false by lia. rewrite Hl. reflexivity. }
+    destruct (c =? 103) eqn:E3; [|discriminate].
+    destruct (validate_signature_nz s H) as [Hz Hl]. rewrite Hz. cbn [andb]. lia.
+  - rewrite wfx_arr in H. apply andb_true_iff in H. destruct H as [_ H]. apply andb_true_iff in H. destruct H as [H Hs].
+    apply andb_true_iff in H. destruct H as [Ht Hl]. rewrite rwf_arr. cbn [ty_of_val] in Hty.
+    assert (Hok : ty_okb (TArray et) = true).
+    { destruct (ty_okb_array _ Hty) as [(k & v & E & _)|Hok]; [discriminate | exact Hok]. }
+    rewrite Hok, Ht. cbn [andb]. replace (nlen (encs le vs (arr_start pos et)) <? 4294967296) with true by (unfold max_array in Hl; lia).
+    cbn [andb]. apply (wfxs_rwfs le vs IH _ _ Hs).
+    clear -Ht Hok. induction vs as [|x r IHr]; [reflexivity|]. cbn [forallb map] in *. apply andb_true_iff in Ht. destruct Ht as [T1 T2].
+    apply ty_eqb_eq in T1. rewrite T1, Hok. exact (IHr T2).
+  - rewrite wfx_struct in H. apply andb_true_iff in H. destruct H as [_ H]. apply andb_true_iff in H. destruct H as [Hne Hs].
+    rewrite rwf_struct. cbn [ty_of_val] in Hty.
+    assert (Hok : ty_okb (TStruct (map ty_of_val fs)) = true).
+    { destruct (ty_okb_array _ Hty) as [(k & v & E & _)|Hok]; [discriminate | exact Hok]. }
+    replace (negb (isnil fs)) with true by (destruct fs; [discriminate|reflexivity]). cbn [andb].
+    exact (wfxs_rwfs le fs IH _ _ Hs (ty_okb_struct_fields _ Hok)).
+  - rewrite wfx_dict in H. apply andb_true_iff in H. destruct H as [_ H]. apply andb_true_iff in H. destruct H as [Hk Hs].
+    rewrite rwf_dict, Hk. cbn [andb]. cbn [ty_of_val] in Hty.
+    destruct (ty_okb_array _ Hty) as [(k' & v' & E & Hk' & Hv')|Hok]; [|discriminate]. injection E as <- <-.
+    apply (wfxs_rwfs le [k; x] (Forall_cons k IHk (Forall_cons x IHx (Forall_nil _))) _ _ Hs).
+    cbn [map forallb]. rewrite (ty_okb_elem _ Hv'), andb_true_r.
+    destruct k; try discriminate; cbn [ty_of_val ty_okb]; exact Hk'.
+  - cbn [wfx] in H. apply andb_true_iff in H. destruct H as [_ H]. apply andb_true_iff in H. destruct H as [H Hx].
+    apply andb_true_iff in H. destruct H as [Ht Hm]. destruct (sig_model_okb t Hm) as [Hok Hl].
+    cbn [rwf]. rewrite Ht, Hok. replace (nlen (print_ty t) <? 256) with true by lia. cbn [andb].
+    apply (IHx _ _ Hx). apply ty_eqb_eq in Ht. rewrite Ht. apply ty_okb_elem. exact Hok.
+Qed.
+
+Corollary wfxs_rwfs_all le vs depth pos : wfxs le vs depth pos = true -> forallb ty_okb (map ty_of_val vs) = true -> rwfs le vs pos = true.
+Proof.
+  intros H Ht. apply (wfxs_rwfs le vs) with (depth := depth); [|exact H|].
+  - apply Forall_forall. intros v _. apply wfx_rwf.
+  - rewrite forallb_forall in *. intros t Hin. apply ty_okb_elem. apply Ht. exact Hin.
+Qed.
+
+Corollary wfsb_rwfs le vs depth pos : wfsb le vs depth pos = true -> forallb ty_okb (map ty_of_val vs) = true -> rwfs le vs pos = true.
+Proof.
+  intros H. apply (wfxs_rwfs_all le vs depth pos).
+  apply (wfsb_wfxs le vs); [|exact H]. apply Forall_forall. intros v _ d p. apply wfb_wfx.
+Qed.
+
+(* ================= D. the machine on canonical encodings ================================ *)
+Lemma fixed_width_size c sz : fixed_size c = Some sz -> fixed_width c = sz /\ (sz = 1 \/ sz = 2 \/ sz = 4 \/ sz = 8).
+Proof.
+  intros H. apply fixed_codes in H.
+  destruct H as [[-> ->] | [[[-> | ->] ->] | [[[-> | [-> | [-> | ->]]] ->] | [[-> | [-> | ->]] ->]]]]; (split; [reflexivity | lia]).
+Qed.
+
+Section Machine.
+  Variables (le : bool) (sigz data : bytes).
+  Local Notation TS := (tstr sigz data).
+  Local Notation CT := (current_type le sigz data).
+  Local Notation RECURSE := (recurse sigz data).
+  Local Notation RNEXT := (rnext le sigz data).
+  Local Notation DUMP := (dump le sigz data).
+
+  (* ---- leaves ------------------------------------------------------------------------- *)
+  Lemma skip_basic_num c sz n p : fixed_size c = Some sz ->
+    skip_basic le data c p = inl (p + nlen (enc le (VNum c n) p)).
+  Proof.
+    intros H. destruct (fixed_width_size c sz H) as [W S]. unfold skip_basic. rewrite W.
+    replace (negb (sz =? 0)) with true by lia. rewrite enc_num, H. rewrite (align_up_pad p sz S).
+    rewrite nlen_app, nlen_zeros, bytes_of_length. f_equal. lia.
+  Qed.
+
+  Lemma read_basic_num c sz n p rest : fixed_size c = Some sz -> n < 256 ^ sz ->
+    bytes_from data p = enc le (VNum c n) p ++ rest ->
+    marshal_read_basic le data p c = inl (VNum c n).
+  Proof.
+    intros H Hn D. destruct (fixed_width_size c sz H) as [W S]. unfold marshal_read_basic. rewrite W.
+    replace (negb (sz =? 0)) with true by lia. rewrite enc_num, H in D. rewrite <- app_assoc in D.
+    rewrite (align_up_pad p sz S).
+    rewrite (get_num_at le data _ sz n rest); [reflexivity | | exact Hn].
+    apply (bf_step' data p _ _ _ D). rewrite nlen_zeros. reflexivity.
+  Qed.
+
+  Lemma read_uint32_at p v rest : v < 4294967296 ->
+    bytes_from data p = zeros (pad_amount p 4) ++ bytes_of le 4 v ++ rest ->
+    read_uint32 le data p = inl (v, p + pad_amount p 4 + 4).
+  Proof.
+    intros Hv D. unfold read_uint32. rewrite (align_up_pad p 4 ltac:(lia)).
+    rewrite (get_num_at le data _ 4 v rest); [reflexivity | | exact Hv].
+    apply (bf_step' data p _ _ _ D). rewrite nlen_zeros. reflexivity.
+  Qed.
+
+  Lemma skip_basic_str_eq c p : c = 115 \/ c = 111 ->
+    skip_basic le data c p = match read_uint32 le data p with inl (len, q) => inl (q + len + 1) | inr z => inr z end.
+  Proof. intros [-> | ->]; reflexivity. Qed.
+
+  Lemma mrb_str_eq c p : c = 115 \/ c = 111 ->
+    marshal_read_basic le data p c =
+    match read_uint32 le data p with
+    | inl (_, q) => match cstring (bytes_from data q) with inl s => inl (VStr c s) | inr z => inr z end
+    | inr z => inr z
+    end.
+  Proof. intros [-> | ->]; reflexivity. Qed.
+
+  Lemma skip_basic_str c s p rest : c = 115 \/ c = 111 -> nlen s < 4294967296 ->
+    bytes_from data p = enc le (VStr c s) p ++ rest ->
+    skip_basic le data c p = inl (p + nlen (enc le (VStr c s) p)).
+  Proof.
+    intros Hc Hl D. rewrite (skip_basic_str_eq c p Hc).
+    rewrite enc_str in *. replace (c =? 103) with false in * by (destruct Hc as [-> | ->]; reflexivity).
+    rewrite <- !app_assoc in D. rewrite (read_uint32_at p (nlen s) _ Hl D).
+    f_equal. rewrite !nlen_app, nlen_zeros, (bytes_of_length le 4). nl.
+  Qed.
+
+  Lemma read_basic_str c s p rest : c = 115 \/ c = 111 -> nlen s < 4294967296 -> nz s = true ->
+    bytes_from data p = enc le (VStr c s) p ++ rest ->
+    marshal_read_basic le data p c = inl (VStr c s).
+  Proof.
+    intros Hc Hl Hz D. rewrite (mrb_str_eq c p Hc).
+    rewrite enc_str in *. replace (c =? 103) with false in * by (destruct Hc as [-> | ->]; reflexivity).
+    rewrite <- !app_assoc in D. rewrite (read_uint32_at p (nlen s) _ Hl D).
+    assert (D2 : bytes_from data (p + pad_amount p 4 + 4) = s ++ 0 :: rest).
+    { rewrite app_assoc in D. apply (bf_step' data p _ _ _ D). rewrite nlen_app, nlen_zeros, (bytes_of_length le 4). lia. }
+    rewrite D2, (cstring_at s rest Hz). reflexivity.
+  Qed.
+
+  Lemma skip_basic_sig s p rest : bytes_from data p = enc le (VStr 103 s) p ++ rest ->
+    skip_basic le data 103 p = inl (p + nlen (enc le (VStr 103 s) p)).
+  Proof.
+    intros D. change (skip_basic le data 103 p) with (match get_byte data p with inl len => inl (p + len + 2) | inr z => @inr N _ z end).
+    rewrite enc_str in *. change (103 =? 103) with true in *. cbv iota in *. cbn [app] in D. rewrite (get_byte_at _ _ _ _ D). f_equal. nl.
+  Qed.
+
+  Lemma read_basic_sig s p rest : nz s = true -> bytes_from data p = enc le (VStr 103 s) p ++ rest ->
+    marshal_read_basic le data p 103 = inl (VStr 103 s).
+  Proof.
+    intros Hz D.
+    change (marshal_read_basic le data p 103) with
+      (match get_byte data p with
+       | inl _ => match cstring (bytes_from data (p + 1)) with inl x => inl (VStr 103 x) | inr z => @inr val _ z end
+       | inr z => inr z end).
+    rewrite enc_str in *. change (103 =? 103) with true in *. cbv iota in *. cbn [app] in D. rewrite (get_byte_at _ _ _ _ D).
+    assert (D2 : bytes_from data (p + 1) = s ++ 0 :: rest).
+    { change (nlen s :: (s ++ [0]) ++ rest) with ([nlen s] ++ (s ++ [0]) ++ rest) in D. rewrite <- app_assoc in D. exact (bf_step data p _ _ D). }
+    rewrite D2, (cstring_at s rest Hz). reflexivity.
+  Qed.
+
+  Lemma skip_array_at et vs p rest : tygood et = true -> nlen (encs le vs (arr_start p et)) < 4294967296 ->
+    bytes_from data p = enc le (VArr et vs) p ++ rest ->
+    skip_array le data (code_of et) p = inl (p + nlen (enc le (VArr et vs) p)).
+  Proof.
+    intros G Hl D. destruct (type_align_code et G) as [A S]. unfold skip_array.
+    rewrite enc_arr in *. cbv zeta in *. fold (arr_start p et) in *. rewrite <- !app_assoc in D.
+    rewrite (align_up_pad p 4 ltac:(lia)).
+    assert (D1 : bytes_from data (p + pad_amount p 4) =
+                 zeros (pad_amount (p + pad_amount p 4) 4) ++ bytes_of le 4 (nlen (encs le vs (arr_start p et))) ++
+                 zeros (pad_amount (p + pad_amount p 4 + 4) (spec_align et)) ++ encs le vs (arr_start p et) ++ rest).
+    { rewrite (pad_amount_aligned p 4 ltac:(lia)). cbn [zeros N.to_nat repeat app].
+      apply (bf_step' data p _ _ _ D). rewrite nlen_zeros. reflexivity. }
+    rewrite (read_uint32_at _ _ _ Hl D1). rewrite (pad_amount_aligned p 4 ltac:(lia)). rewrite N.add_0_r. rewrite A.
+    rewrite (align_up_pad _ _ S). f_equal. rewrite !nlen_app, !nlen_zeros, (bytes_of_length le 4). unfold arr_start. lia.
+  Qed.
+
+  (* ---- positions -------------------------------------------------------------------------- *)
+  Definition ty_at (r : reader) (x : bytes) : Prop := exists tl, bytes_from (TS r) (r_tpos r) = x ++ tl.
+
+  Definition at_val (r : reader) (v : val) : Prop :=
+    (exists rest, bytes_from data (r_vpos r) = enc le v (r_vpos r) ++ rest) /\
+    ty_at r (print_ty (ty_of_val v)) /\
+    rwf le (r_vpos r) v = true.
+
+  Definition arr_ok (r : reader) (vs : list val) : Prop :=
+    exists et L,
+      forallb (fun x => ty_eqb (ty_of_val x) et) vs = true /\ tygood et = true /\
+      (vs <> [] -> ty_at r (print_ty et)) /\
+      r_lenoff r + 4 <= r_start r /\ r_lenoff r < 8 /\ (r_start r - r_lenoff r - 4) mod 4 = 0 /\
+      get_num le data (r_start r - r_lenoff r - 4) 4 = inl L /\
+      r_start r <= r_vpos r /\ r_start r + L = r_vpos r + nlen (encs le vs (r_vpos r)).
+
+  Definition lvl_ok (r : reader) (vs : list val) : Prop :=
+    (exists rest, bytes_from data (r_vpos r) = encs le vs (r_vpos r) ++ rest) /\
+    rwfs le vs (r_vpos r) = true /\
+    match r_klass r with
+    | K_ARRAY => r_finished r = false /\ arr_ok r vs
+    | K_STRUCT => r_finished r = isnil vs /\ (vs <> [] -> ty_at r (tysig vs ++ [41]))
+    | K_DICT => r_finished r = isnil vs /\ (vs <> [] -> ty_at r (tysig vs ++ [125]))
+    | _ => r_finished r = false /\ ty_at r (tysig vs ++ [0])
+    end.
+
+  Lemma tysig_cons v vs x : tysig (v :: vs) ++ x = print_ty (ty_of_val v) ++ (tysig vs ++ x).
+  Proof. unfold tysig. cbn [map flat_map]. rewrite app_assoc. reflexivity. Qed.
+
+  Lemma ty_at_head r a b : ty_at r (a ++ b) -> ty_at r a.
+  Proof. intros [tl H]. exists (b ++ tl). rewrite H, app_assoc. reflexivity. Qed.
+
+  Lemma lvl_at_val r v vs : lvl_ok r (v :: vs) -> at_val r v.
+  Proof.
+    intros (D & W & C). cbn [rwfs] in W. apply andb_true_iff in W. destruct W as [Wv Ws].
+    split; [|split; [|exact Wv]].
+    - destruct D as [rest D]. cbn [encs] in D. rewrite <- app_assoc in D. eexists. exact D.
+    - destruct (r_klass r).
+      + destruct C as [_ T]. rewrite tysig_cons in T. exact (ty_at_head _ _ _ T).
+      + destruct C as [_ T]. specialize (T ltac:(discriminate)). rewrite tysig_cons in T. exact (ty_at_head _ _ _ T).
+      + destruct C as [_ T]. specialize (T ltac:(discriminate)). rewrite tysig_cons in T. exact (ty_at_head _ _ _ T).
+      + destruct C as [_ (et & L & Ht & _ & T & _)]. specialize (T ltac:(discriminate)).
+        cbn [forallb] in Ht. apply andb_true_iff in Ht. destruct Ht as [Ht _]. apply ty_eqb_eq in Ht. rewrite Ht. exact T.
+      + destruct C as [_ T]. rewrite tysig_cons in T. exact (ty_at_head _ _ _ T).
+  Qed.
+
+  Lemma array_len_ok r vs : r_klass r = K_ARRAY -> lvl_ok r vs ->
+    exists L, array_len le data r = inl L /\ r_start r <= r_vpos r /\ r_start r + L = r_vpos r + nlen (encs le vs (r_vpos r)).
+  Proof.
+    intros K (_ & _ & C). rewrite K in C. destruct C as [_ (et & L & _ & _ & _ & H1 & H2 & H3 & H4 & H5 & H6)].
+    exists L. split; [|split; assumption]. unfold array_len.
+    replace (r_start r <? r_lenoff r + 4) with false by lia.
+    rewrite (align_up_pad _ 4 ltac:(lia)). rewrite (aligned_no_pad _ 4 ltac:(lia) H3). rewrite N.add_0_r, N.eqb_refl. cbn [negb].
+    rewrite H4. replace (r_start r - (r_start r - r_lenoff r - 4) - 4 <? 8) with true by lia. reflexivity.
+  Qed.
+
+  Lemma ct_cons r v vs : lvl_ok r (v :: vs) -> CT r = inl (code_of (ty_of_val v)).
+  Proof.
+    intros H. pose proof (lvl_at_val r v vs H) as (_ & [tl T] & W). pose proof (rwf_tygood le v _ W) as G.
+    unfold current_type. destruct (r_klass r) eqn:K.
+    - destruct H as (_ & _ & C). rewrite K in C. destruct C as [-> _]. apply (first_type_print _ _ _ _ G T).
+    - destruct H as (_ & _ & C). rewrite K in C. destruct C as [-> _]. cbn [isnil]. apply (first_type_print _ _ _ _ G T).
+    - destruct H as (_ & _ & C). rewrite K in C. destruct C as [-> _]. cbn [isnil]. apply (first_type_print _ _ _ _ G T).
+    - destruct (array_len_ok r _ K H) as (L & AL & S1 & S2).
+      destruct H as (_ & W2 & C). rewrite K in C. destruct C as [-> _].
+      unfold check_finished. rewrite AL. cbn [encs] in S2. rewrite nlen_app in S2. pose proof (rwf_nonempty le v _ W) as NE.
+      replace (r_vpos r <=? r_start r + L) with true by lia. replace (r_start r <=? r_vpos r) with true by lia. cbn [negb].
+      replace (r_vpos r =? r_start r + L) with false by lia. apply (first_type_print _ _ _ _ G T).
+    - destruct H as (_ & _ & C). rewrite K in C. destruct C as [-> _]. apply (first_type_print _ _ _ _ G T).
+  Qed.
+
+  Lemma ct_nil r : lvl_ok r [] -> CT r = inl T_INVALID.
+  Proof.
+    intros H. unfold current_type. destruct (r_klass r) eqn:K.
+    - destruct H as (_ & _ & C). rewrite K in C. destruct C as [-> [tl T]]. cbn [tysig map flat_map app] in T.
+      unfold first_type. rewrite (get_byte_at _ _ _ _ T). reflexivity.
+    - destruct H as (_ & _ & C). rewrite K in C. destruct C as [-> _]. reflexivity.
+    - destruct H as (_ & _ & C). rewrite K in C. destruct C as [-> _]. reflexivity.
+    - destruct (array_len_ok r _ K H) as (L & AL & S1 & S2).
+      destruct H as (_ & _ & C). rewrite K in C. destruct C as [-> _].
+      unfold check_finished. rewrite AL. cbn [encs] in S2. change (nlen (@nil N)) with 0 in S2.
+      replace (r_vpos r <=? r_start r + L) with true by lia. replace (r_start r <=? r_vpos r) with true by lia. cbn [negb].
+      replace (r_vpos r =? r_start r + L) with true by lia. reflexivity.
+    - destruct H as (_ & _ & C). rewrite K in C. destruct C as [-> [tl T]]. cbn [tysig map flat_map app] in T.
+      unfold first_type. rewrite (get_byte_at _ _ _ _ T). reflexivity.
+  Qed.
+  (* ---- recursing into a container ----------------------------------------------------------- *)
+  Lemma recurse_struct_eq r : first_type (TS r) (r_tpos r) = inl DBUS_TYPE_STRUCT ->
+    RECURSE r = inl (mkR K_STRUCT false (r_tval r) (r_tpos r + 1) (align_up (r_vpos r) 8) 0 0).
+  Proof. intros H. unfold recurse. rewrite H. reflexivity. Qed.
+
+  Lemma recurse_dict_eq r : first_type (TS r) (r_tpos r) = inl DBUS_TYPE_DICT_ENTRY ->
+    RECURSE r = inl (mkR K_DICT false (r_tval r) (r_tpos r + 1) (align_up (r_vpos r) 8) 0 0).
+  Proof. intros H. unfold recurse. rewrite H. reflexivity. Qed.
+
+  Lemma recurse_array_eq r : first_type (TS r) (r_tpos r) = inl DBUS_TYPE_ARRAY ->
+    RECURSE r =
+    match first_type (TS r) (r_tpos r + 1) with
+    | inl et => match type_align et with
+                | inl al =>
+                    let len_pos := align_up (r_vpos r) 4 in
+                    let start := align_up (len_pos + 4) al in
+                    if negb (start - (len_pos + 4) <? 8) then inr R_ASSERT
+                    else inl (mkR K_ARRAY false (r_tval r) (r_tpos r + 1) start start (start - (len_pos + 4)))
+                | inr z => inr z
+                end
+    | inr z => inr z
+    end.
+  Proof. intros H. unfold recurse. rewrite H. reflexivity. Qed.
+
+  Lemma recurse_variant_eq r : first_type (TS r) (r_tpos r) = inl DBUS_TYPE_VARIANT ->
+    RECURSE r =
+    match get_byte data (r_vpos r) with
+    | inl sig_len =>
+        match first_type data (r_vpos r + 1) with
+        | inl ct => match type_align ct with
+                    | inl al => inl (mkR K_VARIANT false true (r_vpos r + 1) (align_up (r_vpos r + 1 + sig_len + 1) al) 0 0)
+                    | inr z => inr z
+                    end
+        | inr z => inr z
+        end
+    | inr z => inr z
+    end.
+  Proof. intros H. unfold recurse. rewrite H. reflexivity. Qed.
+
+  Lemma R_struct r fs : at_val r (VStruct fs) ->
+    exists sub, RECURSE r = inl sub /\ lvl_ok sub fs /\ r_klass sub = K_STRUCT /\
+                r_vpos sub = r_vpos r + pad_amount (r_vpos r) 8 /\ r_tpos sub = r_tpos r + 1.
+  Proof.
+    intros ([rest D] & [tl T] & W). pose proof (rwf_tygood le _ _ W) as G.
+    pose proof (first_type_print _ _ _ _ G T) as F. cbn [ty_of_val code_of] in F.
+    eexists. split; [apply (recurse_struct_eq r F)|]. cbn [r_klass r_vpos r_tpos]. rewrite (align_up_pad _ 8 ltac:(lia)).
+    split; [|repeat split; reflexivity].
+    rewrite rwf_struct in W. apply andb_true_iff in W. destruct W as [Wne Ws].
+    unfold lvl_ok. cbn [r_klass r_vpos r_tpos r_finished]. split; [|split; [exact Ws|split]].
+    - rewrite enc_struct, <- app_assoc in D. exists rest. apply (bf_step' data _ _ _ _ D). rewrite nlen_zeros. reflexivity.
+    - destruct fs; [discriminate|reflexivity].
+    - intros _. unfold ty_at, tstr in *. cbn [r_tval r_tpos]. cbn [ty_of_val print_ty] in T. exists tl.
+      change (40 :: flat_map print_ty (map ty_of_val fs) ++ [41]) with ([40] ++ (tysig fs ++ [41])) in T. rewrite <- app_assoc in T.
+      exact (bf_step _ _ _ _ T).
+  Qed.
+
+  Lemma R_dict r k x : at_val r (VDictE k x) ->
+    exists sub, RECURSE r = inl sub /\ lvl_ok sub [k; x] /\ r_klass sub = K_DICT /\
+                r_vpos sub = r_vpos r + pad_amount (r_vpos r) 8 /\ r_tpos sub = r_tpos r + 1.
+  Proof.
+    intros ([rest D] & [tl T] & W). pose proof (rwf_tygood le _ _ W) as G.
+    pose proof (first_type_print _ _ _ _ G T) as F. cbn [ty_of_val code_of] in F.
+    eexists. split; [apply (recurse_dict_eq r F)|]. cbn [r_klass r_vpos r_tpos]. rewrite (align_up_pad _ 8 ltac:(lia)).
+    split; [|repeat split; reflexivity].
+    rewrite rwf_dict in W. apply andb_true_iff in W. destruct W as [Wk Ws].
+    unfold lvl_ok. cbn [r_klass r_vpos r_tpos r_finished]. split; [|split; [exact Ws|split]].
+    - rewrite enc_dict, <- app_assoc in D. exists rest. apply (bf_step' data _ _ _ _ D). rewrite nlen_zeros. reflexivity.
+    - reflexivity.
+    - intros _. unfold ty_at, tstr in *. cbn [r_tval r_tpos]. cbn [ty_of_val print_ty] in T. exists tl.
+      assert (E : 123 :: match k with VNum c _ | VStr c _ => c | _ => 0 end :: print_ty (ty_of_val x) ++ [125] = [123] ++ (tysig [k; x] ++ [125])).
+      { unfold tysig. cbn [map flat_map app]. rewrite app_nil_r. destruct k; try discriminate; reflexivity. }
+      rewrite E, <- app_assoc in T. exact (bf_step _ _ _ _ T).
+  Qed.
+
+  Lemma R_array r et vs : at_val r (VArr et vs) ->
+    exists sub, RECURSE r = inl sub /\ lvl_ok sub vs /\ r_klass sub = K_ARRAY /\
+                r_vpos sub = arr_start (r_vpos r) et /\ r_start sub = arr_start (r_vpos r) et /\ r_tpos sub = r_tpos r + 1 /\
+                r_tval sub = r_tval r /\ ty_at sub (print_ty et).
+  Proof.
+    intros ([rest D] & [tl T] & W). pose proof (rwf_tygood le _ _ W) as G.
+    pose proof (first_type_print _ _ _ _ G T) as F. cbn [ty_of_val code_of] in F.
+    cbn [ty_of_val tygood] in G. destruct (type_align_code et G) as [A S].
+    cbn [ty_of_val print_ty] in T. change (97 :: print_ty et) with ([97] ++ print_ty et) in T. rewrite <- app_assoc in T.
+    pose proof (bf_step _ _ _ _ T) as T1. change (nlen [97]) with 1 in T1.
+    rewrite (recurse_array_eq r F). rewrite (first_type_print _ _ _ _ G T1), A. cbv zeta.
+    rewrite (align_up_pad _ 4 ltac:(lia)). rewrite (align_up_pad _ _ S). fold (arr_start (r_vpos r) et).
+    set (p := r_vpos r) in *.
+    replace (arr_start p et - (p + pad_amount p 4 + 4) <? 8) with true
+      by (unfold arr_start; destruct S as [S|[S|[S|S]]]; rewrite S; unfold pad_amount; lia).
+    cbn [negb]. eexists. split; [reflexivity|]. cbn [r_klass r_vpos r_tpos r_start r_tval].
+    split; [|split; [reflexivity|split; [reflexivity|split; [reflexivity|split; [reflexivity|split; [reflexivity|]]]]];
+             unfold ty_at, tstr in *; cbn [r_tval r_tpos]; exists tl; exact T1].
+    rewrite rwf_arr in W. apply andb_true_iff in W. destruct W as [W Ws]. apply andb_true_iff in W. destruct W as [W Wl].
+    apply andb_true_iff in W. destruct W as [_ Wt].
+    rewrite enc_arr in D. cbv zeta in D. fold (arr_start p et) in D. rewrite <- !app_assoc in D.
+    unfold lvl_ok. cbn [r_klass r_vpos r_tpos r_finished]. split; [|split; [exact Ws|split; [reflexivity|]]].
+    - exists rest. rewrite !app_assoc in D. rewrite <- app_assoc in D. apply (bf_step' data _ _ _ _ D).
+      rewrite !nlen_app, !nlen_zeros, (bytes_of_length le 4). unfold arr_start. lia.
+    - exists et, (nlen (encs le vs (arr_start p et))). cbn [r_lenoff r_start r_vpos].
+      assert (Hlp : arr_start p et - (arr_start p et - (p + pad_amount p 4 + 4)) - 4 = p + pad_amount p 4) by (unfold arr_start; lia).
+      split; [exact Wt|]. split; [exact G|]. split; [|split; [unfold arr_start; lia|split; [|split; [|split; [|split; [lia|lia]]]]]].
+      + intros _. unfold ty_at, tstr in *. cbn [r_tval r_tpos]. exists tl. exact T1.
+      + unfold arr_start; destruct S as [S|[S|[S|S]]]; rewrite S; unfold pad_amount; lia.
+      + rewrite Hlp. apply (aligned_after_pad p 4). lia.
+      + rewrite Hlp. eapply get_num_at; [|lia]. apply (bf_step' data _ _ _ _ D). rewrite nlen_zeros. reflexivity.
+  Qed.
+
+  Lemma R_variant r t x : at_val r (VVar t x) ->
+    exists sub, RECURSE r = inl sub /\ lvl_ok sub [x] /\ r_klass sub = K_VARIANT /\
+                r_vpos sub + nlen (enc le x (r_vpos sub)) = r_vpos r + nlen (enc le (VVar t x) (r_vpos r)) /\
+                r_tpos sub = r_vpos r + 1 /\ r_tval sub = true.
+  Proof.
+    intros ([rest D] & [tl T] & W). pose proof (rwf_tygood le _ _ W) as G.
+    pose proof (first_type_print _ _ _ _ G T) as F. cbn [ty_of_val code_of] in F.
+    cbn [rwf] in W. apply andb_true_iff in W. destruct W as [W Wx]. apply andb_true_iff in W. destruct W as [W Wl].
+    apply andb_true_iff in W. destruct W as [Wt Wok]. apply ty_eqb_eq in Wt. pose proof (ty_okb_tygood t Wok) as Gt.
+    destruct (type_align_code t Gt) as [A S].
+    set (p := r_vpos r) in *. set (q := p + (nlen (print_ty t) + 2)) in *.
+    rewrite enc_var in D. cbv zeta in D.
+    replace (p + nlen (nlen (print_ty t) :: print_ty t ++ [0])) with q in D by (unfold q; nl).
+    cbn [app] in D. rewrite <- !app_assoc in D. cbn [app] in D.
+    assert (D1 : bytes_from data (p + 1) = print_ty t ++ 0 :: enc le x q ++ rest).
+    { change (nlen (print_ty t) :: print_ty t ++ 0 :: enc le x q ++ rest) with ([nlen (print_ty t)] ++ print_ty t ++ 0 :: enc le x q ++ rest) in D.
+      exact (bf_step _ _ _ _ D). }
+    rewrite (recurse_variant_eq r F). fold p. rewrite (get_byte_at _ _ _ _ D). rewrite (first_type_print _ _ _ _ Gt D1), A.
+    replace (p + 1 + nlen (print_ty t) + 1) with q by (unfold q; lia). rewrite (align_up_pad _ _ S).
+    assert (D2 : bytes_from data q = enc le x q ++ rest).
+    { change (print_ty t ++ 0 :: enc le x q ++ rest) with (print_ty t ++ [0] ++ enc le x q ++ rest) in D1. rewrite app_assoc in D1.
+      apply (bf_step' _ _ _ _ _ D1). unfold q. nl. }
+    rewrite <- Wt in S. rewrite (rwf_enc_split le x q Wx) in D2. rewrite <- app_assoc in D2.
+    replace (spec_align t) with (spec_align (ty_of_val x)) by (rewrite Wt; reflexivity).
+    eexists. split; [reflexivity|]. cbn [r_klass r_vpos r_tpos r_tval]. split; [|split; [reflexivity|split; [|split; reflexivity]]].
+    - unfold lvl_ok. cbn [r_klass r_vpos r_tpos r_finished]. split; [|split; [|split; [reflexivity|]]].
+      + exists rest. cbn [encs]. rewrite app_nil_r. apply (bf_step' data _ _ _ _ D2). rewrite nlen_zeros. reflexivity.
+      + cbn [rwfs]. rewrite rwf_split, Wx. reflexivity.
+      + unfold ty_at, tstr. cbn [r_tval r_tpos]. unfold tysig. cbn [map flat_map]. rewrite app_nil_r, Wt.
+        eexists. rewrite <- app_assoc. exact D1.
+    - rewrite enc_var. cbv zeta. replace (p + nlen (nlen (print_ty t) :: print_ty t ++ [0])) with q by (unfold q; nl).
+      rewrite (rwf_enc_split le x q Wx) at 1. rewrite !nlen_app, nlen_zeros. unfold q. nl.
+  Qed.
+  (* ---- one step of next ----------------------------------------------------------------------- *)
+  Definition is_cont (v : val) : bool := match v with VStruct _ | VDictE _ _ | VVar _ _ => true | _ => false end.
+
+  (* what "recurse, then call next on the sub-reader until it returns FALSE" must achieve *)
+  Definition drain_ok (drain : reader -> rr reader) (r : reader) (v : val) : Prop :=
+    forall sub, RECURSE r = inl sub ->
+      exists sub', drain sub = inl sub' /\ r_vpos sub' = r_vpos r + nlen (enc le v (r_vpos r)) /\
+                   (code_of (ty_of_val v) <> DBUS_TYPE_VARIANT -> r_tpos sub' = r_tpos r + nlen (print_ty (ty_of_val v))).
+
+  Lemma base_next_sd drain r t : t = DBUS_TYPE_STRUCT \/ t = DBUS_TYPE_DICT_ENTRY ->
+    base_next le sigz data drain r t =
+    match RECURSE r with
+    | inl sub => match drain sub with
+                 | inl sub' => inl (set_tpos (set_vpos r (r_vpos sub')) (r_tpos sub'))
+                 | inr z => inr z
+                 end
+    | inr z => inr z
+    end.
+  Proof. intros [-> | ->]; reflexivity. Qed.
+
+  Lemma base_next_var drain r :
+    base_next le sigz data drain r DBUS_TYPE_VARIANT =
+    match RECURSE r with
+    | inl sub => match drain sub with
+                 | inl sub' => inl (set_tpos (set_vpos r (r_vpos sub')) (r_tpos r + 1))
+                 | inr z => inr z
+                 end
+    | inr z => inr z
+    end.
+  Proof. reflexivity. Qed.
+
+  Lemma base_next_arr drain r :
+    base_next le sigz data drain r DBUS_TYPE_ARRAY =
+    match first_type (TS r) (r_tpos r + 1) with
+    | inl et => match skip_array le data et (r_vpos r) with
+                | inl p => match sig_next (TS r) (r_tpos r) with
+                           | inl tp => inl (set_tpos (set_vpos r p) tp)
+                           | inr z => inr z
+                           end
+                | inr z => inr z
+                end
+    | inr z => inr z
+    end.
+  Proof. reflexivity. Qed.
+
+  Lemma base_next_basic drain r c : is_basic_code c = true ->
+    base_next le sigz data drain r c =
+    match skip_basic le data c (r_vpos r) with
+    | inl p => inl (set_tpos (set_vpos r p) (r_tpos r + 1))
+    | inr z => inr z
+    end.
+  Proof. intros H. apply basic_code_cases in H. repeat (destruct H as [H|H]; [subst c; reflexivity|]). subst c; reflexivity. Qed.
+
+  Lemma basic_not_container c : is_basic_code c = true -> is_sdv c = false /\ (c =? DBUS_TYPE_ARRAY) = false.
+  Proof. intros H. apply basic_code_cases in H. repeat (destruct H as [H|H]; [subst c; split; reflexivity|]). subst c; split; reflexivity. Qed.
+
+  Lemma skip_basic_val r v : at_val r v -> is_basic_val v = true ->
+    is_basic_code (code_of (ty_of_val v)) = true /\
+    skip_basic le data (code_of (ty_of_val v)) (r_vpos r) = inl (r_vpos r + nlen (enc le v (r_vpos r))) /\
+    nlen (print_ty (ty_of_val v)) = 1.
+  Proof.
+    intros ([rest D] & _ & W) B. destruct v as [c n|c s| | | | ]; try discriminate; cbn [ty_of_val code_of print_ty].
+    - cbn [rwf] in W. destruct (fixed_size c) as [sz|] eqn:E; [|discriminate].
+      split; [exact (fixed_basic c sz E)|]. split; [exact (skip_basic_num c sz n _ E) | reflexivity].
+    - cbn [rwf] in W. apply andb_true_iff in W. destruct W as [Wz W].
+      destruct (c =? 103) eqn:E.
+      + apply N.eqb_eq in E. subst c. split; [reflexivity|]. split; [exact (skip_basic_sig s _ rest D) | reflexivity].
+      + apply andb_true_iff in W. destruct W as [Wc Wl].
+        assert (Hc : c = 115 \/ c = 111) by (apply orb_true_iff in Wc; destruct Wc as [Wc|Wc]; apply N.eqb_eq in Wc; auto).
+        split; [destruct Hc as [-> | ->]; reflexivity|]. split; [apply (skip_basic_str c s _ rest Hc ltac:(lia) D) | reflexivity].
+  Qed.
+
+  Lemma skip_array_val r et vs : at_val r (VArr et vs) ->
+    first_type (TS r) (r_tpos r + 1) = inl (code_of et) /\
+    skip_array le data (code_of et) (r_vpos r) = inl (r_vpos r + nlen (enc le (VArr et vs) (r_vpos r))) /\
+    sig_next (TS r) (r_tpos r) = inl (r_tpos r + nlen (print_ty (TArray et))).
+  Proof.
+    intros ([rest D] & [tl T] & W). pose proof (rwf_tygood le _ _ W) as G. cbn [ty_of_val] in *.
+    split; [|split].
+    - pose proof T as T0. cbn [print_ty] in T0. change (97 :: print_ty et) with ([97] ++ print_ty et) in T0. rewrite <- app_assoc in T0.
+      pose proof (bf_step _ _ _ _ T0) as T1. change (nlen [97]) with 1 in T1. exact (first_type_print _ _ et _ G T1).
+    - rewrite rwf_arr in W. apply andb_true_iff in W. destruct W as [W _]. apply andb_true_iff in W. destruct W as [_ Wl].
+      apply (skip_array_at et vs (r_vpos r) rest G ltac:(lia) D).
+    - exact (sig_next_print _ _ _ _ G T).
+  Qed.
+
+  Lemma cont_code v : is_cont v = true ->
+    (code_of (ty_of_val v) = DBUS_TYPE_STRUCT \/ code_of (ty_of_val v) = DBUS_TYPE_DICT_ENTRY) /\ code_of (ty_of_val v) <> DBUS_TYPE_VARIANT \/
+    code_of (ty_of_val v) = DBUS_TYPE_VARIANT /\ nlen (print_ty (ty_of_val v)) = 1.
+  Proof. destruct v; try discriminate; intros _; cbn [ty_of_val code_of print_ty]; [left|left|right]; (split; [auto|]); try discriminate; reflexivity. Qed.
+
+  Lemma cont_recurse r v : at_val r v -> is_cont v = true -> exists sub, RECURSE r = inl sub.
+  Proof.
+    intros A C. destruct v; try discriminate.
+    - destruct (R_struct r _ A) as (sub & H & _). eauto.
+    - destruct (R_dict r _ _ A) as (sub & H & _). eauto.
+    - destruct (R_variant r _ _ A) as (sub & H & _). eauto.
+  Qed.
+
+  Lemma val_kind v : is_basic_val v = true \/ (exists et vs, v = VArr et vs) \/ is_cont v = true.
+  Proof. destruct v; cbn; eauto. Qed.
+
+  Lemma base_next_ok drain r v : at_val r v -> (is_cont v = true -> drain_ok drain r v) ->
+    base_next le sigz data drain r (code_of (ty_of_val v)) =
+    inl (set_tpos (set_vpos r (r_vpos r + nlen (enc le v (r_vpos r)))) (r_tpos r + nlen (print_ty (ty_of_val v)))).
+  Proof.
+    intros A Hd. destruct (val_kind v) as [B|[(et & vs & ->)|C]].
+    - destruct (skip_basic_val r v A B) as (Hb & Hs & Hl). rewrite (base_next_basic drain r _ Hb), Hs, Hl. reflexivity.
+    - destruct (skip_array_val r et vs A) as (H1 & H2 & H3). cbn [ty_of_val code_of]. rewrite base_next_arr, H1, H2, H3. reflexivity.
+    - destruct (cont_recurse r v A C) as [sub Hr]. destruct (Hd C sub Hr) as (sub' & Hdr & Hv & Ht).
+      destruct (cont_code v C) as [[Hc Hnv]|[Hc Hl]].
+      + rewrite (base_next_sd drain r _ Hc), Hr, Hdr, Hv, (Ht Hnv). reflexivity.
+      + rewrite Hc, base_next_var, Hr, Hdr, Hv, Hl. reflexivity.
+  Qed.
+
+  Lemma print_head_ok t : tygood t = true -> exists c r, print_ty t = c :: r /\ c <> 41 /\ c <> 125 /\ c <> 0.
+  Proof.
+    destruct t as [c| |t'|ts|k v]; cbn [tygood print_ty]; intros H.
+    - destruct (basic_code_ne c H) as (_ & _ & _ & ? & _ & ? & ?). eexists _, _. split; [reflexivity|]. auto.
+    - eexists _, _. split; [reflexivity|]. repeat split; discriminate.
+    - eexists _, _. split; [reflexivity|]. repeat split; discriminate.
+    - eexists _, _. split; [reflexivity|]. repeat split; discriminate.
+    - eexists _, _. split; [reflexivity|]. repeat split; discriminate.
+  Qed.
+
+  Lemma rwfs_head_tygood v vs p : rwfs le (v :: vs) p = true -> tygood (ty_of_val v) = true.
+  Proof. cbn [rwfs]. intros H. apply andb_true_iff in H. exact (rwf_tygood le v _ (proj1 H)). Qed.
+
+  (* the state after a step, for every class *)
+  Definition step_res (r : reader) (v : val) (vs' : list val) (res : rr (reader * bool)) : Prop :=
+    exists r', res = inl (r', negb (isnil vs')) /\ lvl_ok r' vs' /\
+               r_vpos r' = r_vpos r + nlen (enc le v (r_vpos r)) /\ r_klass r' = r_klass r /\
+               ((r_klass r = K_STRUCT \/ r_klass r = K_DICT) ->
+                r_tpos r' = r_tpos r + nlen (print_ty (ty_of_val v)) + (if isnil vs' then 1 else 0)).
+
+  Lemma lvl_data_step r v vs' : lvl_ok r (v :: vs') ->
+    (exists rest, bytes_from data (r_vpos r + nlen (enc le v (r_vpos r))) = encs le vs' (r_vpos r + nlen (enc le v (r_vpos r))) ++ rest) /\
+    rwfs le vs' (r_vpos r + nlen (enc le v (r_vpos r))) = true.
+  Proof.
+    intros ([rest D] & W & _). cbn [rwfs] in W. apply andb_true_iff in W. split; [|exact (proj2 W)].
+    cbn [encs] in D. rewrite <- app_assoc in D. exists rest. exact (bf_step _ _ _ _ D).
+  Qed.
+
+  Lemma closing_next_ok closer drain r v vs' : (closer = 41 /\ r_klass r = K_STRUCT) \/ (closer = 125 /\ r_klass r = K_DICT) ->
+    lvl_ok r (v :: vs') -> (is_cont v = true -> drain_ok drain r v) ->
+    exists r', closing_next le sigz data closer drain r (code_of (ty_of_val v)) = inl r' /\ lvl_ok r' vs' /\
+               r_vpos r' = r_vpos r + nlen (enc le v (r_vpos r)) /\ r_klass r' = r_klass r /\
+               r_tpos r' = r_tpos r + nlen (print_ty (ty_of_val v)) + (if isnil vs' then 1 else 0).
+  Proof.
+    intros Hk L Hd. pose proof (lvl_at_val r v vs' L) as A. destruct (lvl_data_step r v vs' L) as [Dn Wn].
+    unfold closing_next. rewrite (base_next_ok drain r v A Hd).
+    set (vp' := r_vpos r + nlen (enc le v (r_vpos r))) in *. set (tp' := r_tpos r + nlen (print_ty (ty_of_val v))).
+    assert (T : exists tl, bytes_from (TS r) tp' = tysig vs' ++ closer :: tl).
+    { destruct L as (_ & _ & C). destruct Hk as [[-> K]|[-> K]]; rewrite K in C; destruct C as [_ T]; specialize (T ltac:(discriminate));
+        rewrite tysig_cons in T; destruct T as [tl T]; rewrite <- !app_assoc in T; exists tl; exact (bf_step _ _ _ _ T). }
+    destruct T as [tl T].
+    change (TS (set_tpos (set_vpos r vp') tp')) with (TS r). rsimp.
+    destruct vs' as [|y ys].
+    - cbn [tysig map flat_map app] in T. rewrite (get_byte_at _ _ _ _ T), N.eqb_refl.
+      eexists. split; [reflexivity|]. rsimp. cbn [isnil]. split; [|repeat split; reflexivity].
+      unfold lvl_ok. rsimp. split; [exact Dn|]. split; [exact Wn|].
+      destruct Hk as [[_ ->]|[_ ->]]; (split; [reflexivity | intros X; congruence]).
+    - destruct (print_head_ok _ (rwfs_head_tygood _ _ _ Wn)) as (c & rr0 & E & N1 & N2 & N3).
+      pose proof T as T2. rewrite tysig_cons, E in T2. cbn [app] in T2. rewrite (get_byte_at _ _ _ _ T2).
+      replace (c =? closer) with false by (destruct Hk as [[-> _]|[-> _]]; lia).
+      eexists. split; [reflexivity|]. rsimp. cbn [isnil]. split; [|repeat split; lia].
+      unfold lvl_ok. rsimp. split; [exact Dn|]. split; [exact Wn|].
+      destruct L as (_ & _ & C).
+      destruct Hk as [[-> K]|[-> K]]; rewrite K in *; destruct C as [F _]; (split; [exact F|]); intros _; unfold ty_at, tstr in *; rsimp;
+        exists tl; rewrite T; rewrite <- app_assoc; reflexivity.
+  Qed.
+  Lemma plain_next_ok drain r v vs' : r_klass r = K_BODY \/ r_klass r = K_VARIANT ->
+    lvl_ok r (v :: vs') -> (is_cont v = true -> drain_ok drain r v) ->
+    exists r', base_next le sigz data drain r (code_of (ty_of_val v)) = inl r' /\ lvl_ok r' vs' /\
+               r_vpos r' = r_vpos r + nlen (enc le v (r_vpos r)) /\ r_klass r' = r_klass r.
+  Proof.
+    intros Hk L Hd. pose proof (lvl_at_val r v vs' L) as A. destruct (lvl_data_step r v vs' L) as [Dn Wn].
+    rewrite (base_next_ok drain r v A Hd). eexists. split; [reflexivity|]. rsimp. split; [|split; reflexivity].
+    unfold lvl_ok. rsimp. split; [exact Dn|]. split; [exact Wn|].
+    destruct L as (_ & _ & C).
+    destruct Hk as [K|K]; rewrite K in *; destruct C as [F [tl T]]; (split; [exact F|]); unfold ty_at, tstr in *; rsimp;
+      rewrite tysig_cons, <- app_assoc in T; exists tl; exact (bf_step _ _ _ _ T).
+  Qed.
+
+  Lemma array_len_of r L : r_lenoff r + 4 <= r_start r -> r_lenoff r < 8 -> (r_start r - r_lenoff r - 4) mod 4 = 0 ->
+    get_num le data (r_start r - r_lenoff r - 4) 4 = inl L -> array_len le data r = inl L.
+  Proof.
+    intros H1 H2 H3 H4. unfold array_len.
+    replace (r_start r <? r_lenoff r + 4) with false by lia.
+    rewrite (align_up_pad _ 4 ltac:(lia)). rewrite (aligned_no_pad _ 4 ltac:(lia) H3). rewrite N.add_0_r, N.eqb_refl. cbn [negb].
+    rewrite H4. replace (r_start r - (r_start r - r_lenoff r - 4) - 4 <? 8) with true by lia. reflexivity.
+  Qed.
+
+  Lemma cont_sdv v : is_cont v = true -> is_sdv (code_of (ty_of_val v)) = true.
+  Proof. destruct v; try discriminate; reflexivity. Qed.
+
+  Lemma array_next_ok drain r v vs' : r_klass r = K_ARRAY ->
+    lvl_ok r (v :: vs') -> (is_cont v = true -> drain_ok drain r v) ->
+    exists r', array_next le sigz data drain r (code_of (ty_of_val v)) = inl r' /\ lvl_ok r' vs' /\
+               r_vpos r' = r_vpos r + nlen (enc le v (r_vpos r)) /\ r_klass r' = r_klass r.
+  Proof.
+    intros K L Hd. pose proof (lvl_at_val r v vs' L) as A. destruct (lvl_data_step r v vs' L) as [Dn Wn].
+    pose proof A as (_ & [tl0 T0] & W). pose proof (rwf_tygood le v _ W) as G. pose proof (rwf_nonempty le v _ W) as NE.
+    destruct L as (_ & _ & C). rewrite K in C. destruct C as [Fin (et & L0 & Ht & Get & Tat & H1 & H2 & H3 & H4 & H5 & H6)].
+    cbn [forallb] in Ht. apply andb_true_iff in Ht. destruct Ht as [Hv Ht]. apply ty_eqb_eq in Hv.
+    cbn [encs] in H6. rewrite nlen_app in H6.
+    set (vp' := r_vpos r + nlen (enc le v (r_vpos r))) in *.
+    unfold array_next. rewrite (array_len_of r L0 H1 H2 H3 H4).
+    replace (r_vpos r <? r_start r + L0) with true by lia. replace (r_start r <=? r_vpos r) with true by lia. cbn [negb].
+    rewrite (first_type_print _ _ _ _ G T0).
+    match goal with |- context [match (if is_sdv ?c then ?X else ?Y) with inl _ => _ | inr _ => _ end] =>
+      assert (STEP : (if is_sdv c then X else Y) = inl (set_vpos r vp')) end.
+    { destruct (val_kind v) as [B|[(et' & vs0 & ->)|Cn]].
+      - destruct (skip_basic_val r v A B) as (Hb & Hs & _). destruct (basic_not_container _ Hb) as [N1 N2]. rewrite N1, N2, Hs. reflexivity.
+      - destruct (skip_array_val r et' vs0 A) as (E1 & E2 & _). cbn [ty_of_val code_of].
+        change (is_sdv DBUS_TYPE_ARRAY) with false. change (DBUS_TYPE_ARRAY =? DBUS_TYPE_ARRAY) with true. cbv iota. rewrite E1, E2. reflexivity.
+      - rewrite (cont_sdv v Cn). destruct (cont_recurse r v A Cn) as [sub Hr]. destruct (Hd Cn sub Hr) as (sub' & Hdr & Hvp & _).
+        rewrite Hr, Hdr, Hvp. reflexivity. }
+    rewrite STEP. rsimp.
+    destruct vs' as [|y ys].
+    - cbn [encs] in H6. change (nlen (@nil N)) with 0 in H6.
+      replace (vp' <=? r_start r + L0) with true by lia. cbn [negb]. replace (vp' =? r_start r + L0) with true by lia.
+      change (TS (set_vpos r vp')) with (TS r). rewrite (sig_next_print _ _ _ _ G T0).
+      eexists. split; [reflexivity|]. rsimp. split; [|split; reflexivity].
+      unfold lvl_ok. rsimp. split; [exact Dn|]. split; [exact Wn|]. rewrite K. split; [exact Fin|].
+      unfold arr_ok. exists et, L0. rsimp. split; [reflexivity|]. split; [exact Get|]. split; [intros X; congruence|].
+      repeat split; try assumption; try lia. cbn [encs]. change (nlen (@nil N)) with 0. lia.
+    - pose proof Wn as Wn2. cbn [rwfs] in Wn2. apply andb_true_iff in Wn2. destruct Wn2 as [Wy _]. pose proof (rwf_nonempty le y _ Wy) as NEy.
+      cbn [encs] in H6. rewrite nlen_app in H6.
+      replace (vp' <=? r_start r + L0) with true by lia. cbn [negb]. replace (vp' =? r_start r + L0) with false by lia.
+      eexists. split; [reflexivity|]. rsimp. split; [|split; reflexivity].
+      unfold lvl_ok. rsimp. split; [exact Dn|]. split; [exact Wn|]. rewrite K. split; [exact Fin|].
+      unfold arr_ok. exists et, L0. rsimp. split; [exact Ht|]. split; [exact Get|]. split.
+      + intros _. specialize (Tat ltac:(discriminate)). unfold ty_at, tstr in *. rsimp. exact Tat.
+      + repeat split; try assumption; try lia. cbn [encs]. rewrite nlen_app. lia.
+  Qed.
+
+  (* class dispatch of _dbus_type_reader_next *)
+  Definition drainf (d' : nat) : nat -> reader -> rr reader :=
+    fix drain (n : nat) (s : reader) {struct n} : rr reader :=
+      match n with
+      | O => inr R_FUEL
+      | S n' => match RNEXT d' s with
+                | inl sm => let '(s', more) := sm in if more then drain n' s' else inl s'
+                | inr z => inr z
+                end
+      end.
+
+  Definition class_next (drain : reader -> rr reader) (r : reader) (t : N) : rr reader :=
+    match r_klass r with
+    | K_BODY | K_VARIANT => base_next le sigz data drain r t
+    | K_STRUCT => closing_next le sigz data DBUS_STRUCT_END_CHAR drain r t
+    | K_DICT => closing_next le sigz data DBUS_DICT_ENTRY_END_CHAR drain r t
+    | K_ARRAY => array_next le sigz data drain r t
+    end.
+
+  Lemma rnext_S d' r : RNEXT (S d') r =
+    match CT r with
+    | inl t => if t =? T_INVALID then inl (r, false)
+               else match class_next (drainf d' (loop_fuel data)) r t with
+                    | inl r' => match CT r' with
+                                | inl t' => inl (r', negb (t' =? T_INVALID))
+                                | inr z => inr z
+                                end
+                    | inr z => inr z
+                    end
+    | inr z => inr z
+    end.
+  Proof. reflexivity. Qed.
+
+  Lemma ct_of_list r vs : lvl_ok r vs -> exists t, CT r = inl t /\ negb (t =? T_INVALID) = negb (isnil vs).
+  Proof.
+    destruct vs as [|y ys]; intros L.
+    - exists T_INVALID. split; [exact (ct_nil r L) | reflexivity].
+    - exists (code_of (ty_of_val y)). split; [exact (ct_cons r y ys L)|].
+      destruct L as (_ & W & _). rewrite (code_of_nonzero _ (rwfs_head_tygood _ _ _ W)). reflexivity.
+  Qed.
+
+  Lemma rnext_ok d' r v vs' : lvl_ok r (v :: vs') -> (is_cont v = true -> drain_ok (drainf d' (loop_fuel data)) r v) ->
+    step_res r v vs' (RNEXT (S d') r).
+  Proof.
+    intros L Hd. rewrite rnext_S, (ct_cons r v vs' L).
+    pose proof L as (_ & W & _). rewrite (code_of_nonzero _ (rwfs_head_tygood _ _ _ W)).
+    unfold class_next, step_res. destruct (r_klass r) eqn:K.
+    - destruct (plain_next_ok _ r v vs' (or_introl K) L Hd) as (r' & E & L' & P1 & P2). rewrite E.
+      destruct (ct_of_list r' vs' L') as (t' & E' & B). rewrite E', B. exists r'. split; [reflexivity|]. split; [exact L'|]. split; [exact P1|]. split; [congruence|].
+      intros [X|X]; congruence.
+    - destruct (closing_next_ok 41 _ r v vs' (or_introl (conj eq_refl K)) L Hd) as (r' & E & L' & P1 & P2 & P3).
+      change DBUS_STRUCT_END_CHAR with 41. rewrite E.
+      destruct (ct_of_list r' vs' L') as (t' & E' & B). rewrite E', B. exists r'. split; [reflexivity|]. split; [exact L'|]. split; [exact P1|]. split; [congruence|]. intros _. exact P3.
+    - destruct (closing_next_ok 125 _ r v vs' (or_intror (conj eq_refl K)) L Hd) as (r' & E & L' & P1 & P2 & P3).
+      change DBUS_DICT_ENTRY_END_CHAR with 125. rewrite E.
+      destruct (ct_of_list r' vs' L') as (t' & E' & B). rewrite E', B. exists r'. split; [reflexivity|]. split; [exact L'|]. split; [exact P1|]. split; [congruence|]. intros _. exact P3.
+    - destruct (array_next_ok _ r v vs' K L Hd) as (r' & E & L' & P1 & P2). rewrite E.
+      destruct (ct_of_list r' vs' L') as (t' & E' & B). rewrite E', B. exists r'. split; [reflexivity|]. split; [exact L'|]. split; [exact P1|]. split; [congruence|].
+      intros [X|X]; congruence.
+    - destruct (plain_next_ok _ r v vs' (or_intror K) L Hd) as (r' & E & L' & P1 & P2). rewrite E.
+      destruct (ct_of_list r' vs' L') as (t' & E' & B). rewrite E', B. exists r'. split; [reflexivity|]. split; [exact L'|]. split; [exact P1|]. split; [congruence|].
+      intros [X|X]; congruence.
+  Qed.
+  (* ---- next over whole values, by induction on the value ------------------------------------------ *)
+  Definition NX (v : val) : Prop :=
+    forall d r vs', (height v < d)%nat -> lvl_ok r (v :: vs') -> step_res r v vs' (RNEXT d r).
+
+  Lemma drainf_S d' n s : drainf d' (S n) s =
+    match RNEXT d' s with
+    | inl sm => let '(s', more) := sm in if more then drainf d' n s' else inl s'
+    | inr z => inr z
+    end.
+  Proof. reflexivity. Qed.
+
+  Lemma lvl_len r vs : lvl_ok r vs -> (length vs <= length data)%nat.
+  Proof.
+    intros ([rest D] & W & _). pose proof (rwfs_length le vs _ W) as H1.
+    assert (H2 : (length (bytes_from data (r_vpos r)) <= length data)%nat) by (unfold bytes_from; rewrite skipn_length; lia).
+    rewrite D, app_length in H2. lia.
+  Qed.
+
+  Lemma drain_list : forall fs x, Forall NX (x :: fs) ->
+    forall d' n sub, (heights (x :: fs) < d')%nat -> (length (x :: fs) <= n)%nat -> lvl_ok sub (x :: fs) ->
+    exists sub', drainf d' n sub = inl sub' /\ r_vpos sub' = r_vpos sub + nlen (encs le (x :: fs) (r_vpos sub)) /\
+                 ((r_klass sub = K_STRUCT \/ r_klass sub = K_DICT) -> r_tpos sub' = r_tpos sub + nlen (tysig (x :: fs)) + 1).
+  Proof.
+    induction fs as [|y ys IH]; intros x HF d' n sub Hh Hn L; inversion HF as [|? ? Hx HF']; subst;
+      rewrite heights_cons in Hh; (destruct n as [|n]; [cbn [length] in Hn; lia|]); rewrite drainf_S.
+    - destruct (Hx d' sub [] ltac:(lia) L) as (r' & E & L' & P1 & P2 & P3). rewrite E. cbn [isnil negb].
+      exists r'. split; [reflexivity|]. split.
+      + rewrite P1. cbn [encs]. rewrite app_nil_r. reflexivity.
+      + intros Hk. rewrite (P3 Hk). cbn [isnil]. unfold tysig. cbn [map flat_map]. rewrite app_nil_r. lia.
+    - destruct (Hx d' sub (y :: ys) ltac:(lia) L) as (r' & E & L' & P1 & P2 & P3). rewrite E. cbn [isnil negb].
+      destruct (IH y HF' d' n r' ltac:(lia) ltac:(cbn [length] in *; lia) L') as (sub' & E2 & Q1 & Q2).
+      exists sub'. split; [exact E2|]. split.
+      + rewrite Q1, P1. cbn [encs]. rewrite !nlen_app. lia.
+      + intros Hk. rewrite Q2 by (rewrite P2; exact Hk). rewrite (P3 Hk). cbn [isnil]. unfold tysig. cbn [map flat_map]. rewrite !nlen_app. lia.
+  Qed.
+
+  Lemma drain_ok_struct d' r fs : Forall NX fs -> (heights fs < d')%nat -> at_val r (VStruct fs) ->
+    drain_ok (drainf d' (loop_fuel data)) r (VStruct fs).
+  Proof.
+    intros HF Hh A sub Hr. destruct (R_struct r fs A) as (sub0 & Hr0 & L0 & K0 & V0 & T0). rewrite Hr0 in Hr. injection Hr as <-.
+    destruct fs as [|x fs']; [destruct A as (_ & _ & W); rewrite rwf_struct in W; discriminate|].
+    destruct (drain_list fs' x HF d' (loop_fuel data) sub0 Hh ltac:(pose proof (lvl_len _ _ L0); unfold loop_fuel; lia) L0) as (sub' & E & P1 & P2).
+    exists sub'. split; [exact E|]. split.
+    - rewrite P1, V0, enc_struct, nlen_app, nlen_zeros. lia.
+    - intros _. rewrite (P2 (or_introl K0)), T0. cbn [ty_of_val print_ty]. unfold tysig. nl.
+  Qed.
+
+  Lemma drain_ok_dict d' r k x : NX k -> NX x -> (Nat.max (height k) (height x) < d')%nat -> at_val r (VDictE k x) ->
+    drain_ok (drainf d' (loop_fuel data)) r (VDictE k x).
+  Proof.
+    intros Hk Hx Hh A sub Hr. destruct (R_dict r k x A) as (sub0 & Hr0 & L0 & K0 & V0 & T0). rewrite Hr0 in Hr. injection Hr as <-.
+    destruct (drain_list [x] k (Forall_cons k Hk (Forall_cons x Hx (Forall_nil _))) d' (loop_fuel data) sub0
+                ltac:(cbn [heights fold_right]; lia) ltac:(pose proof (lvl_len _ _ L0); unfold loop_fuel; lia) L0) as (sub' & E & P1 & P2).
+    exists sub'. split; [exact E|]. split.
+    - rewrite P1, V0, enc_dict, nlen_app, nlen_zeros. lia.
+    - intros _. rewrite (P2 (or_intror K0)), T0. cbn [ty_of_val print_ty]. unfold tysig. cbn [map flat_map]. rewrite app_nil_r.
+      destruct A as (_ & _ & W). rewrite rwf_dict in W. apply andb_true_iff in W. destruct W as [Bk _].
+      destruct k; try discriminate; cbn [ty_of_val print_ty]; nl.
+  Qed.
+
+  Lemma drain_ok_variant d' r t x : NX x -> (height x < d')%nat -> at_val r (VVar t x) ->
+    drain_ok (drainf d' (loop_fuel data)) r (VVar t x).
+  Proof.
+    intros Hx Hh A sub Hr. destruct (R_variant r t x A) as (sub0 & Hr0 & L0 & K0 & V0 & T0 & _). rewrite Hr0 in Hr. injection Hr as <-.
+    destruct (drain_list [] x (Forall_cons x Hx (Forall_nil _)) d' (loop_fuel data) sub0
+                ltac:(cbn [heights fold_right]; lia) ltac:(pose proof (lvl_len _ _ L0); unfold loop_fuel; lia) L0) as (sub' & E & P1 & _).
+    exists sub'. split; [exact E|]. split.
+    - rewrite P1. cbn [encs]. rewrite app_nil_r. exact V0.
+    - intros X. exfalso. apply X. reflexivity.
+  Qed.
+
+  Theorem next_all : forall v, NX v.
+  Proof.
+    induction v as [c n|c s|et vs IH|fs IH|k x IHk IHx|t x IHx] using val_ind'; intros d r vs' Hh L;
+      (destruct d as [|d']; [lia|]); apply (rnext_ok d' r _ vs' L); intros C; try discriminate C.
+    - apply (drain_ok_struct d' r fs IH); [cbn [height] in Hh; fold (heights fs) in Hh; lia | exact (lvl_at_val _ _ _ L)].
+    - apply (drain_ok_dict d' r k x IHk IHx); [cbn [height] in Hh; lia | exact (lvl_at_val _ _ _ L)].
+    - apply (drain_ok_variant d' r t x IHx); [cbn [height] in Hh; lia | exact (lvl_at_val _ _ _ L)].
+  Qed.
+  (* ---- reading the values (dump_iter) ------------------------------------------------------------ *)
+  Local Notation RV_ := (read_value le sigz data).
+
+  Lemma read_value_basic sub r c : is_basic_code c = true -> RV_ sub r c = read_basic le sigz data r.
+  Proof. intros H. apply basic_code_cases in H. repeat (destruct H as [H|H]; [subst c; reflexivity|]). subst c; reflexivity. Qed.
+
+  Lemma read_value_arr sub r : RV_ sub r DBUS_TYPE_ARRAY =
+    match RECURSE r with
+    | inl s => match get_signature sigz data r with
+               | inl sg => match single_ty sg with
+                           | inl aty => match aty with
+                                        | TArray et => match sub s with inl xs => inl (VArr et xs) | inr z => inr z end
+                                        | _ => inr R_GAP
+                                        end
+                           | inr z => inr z
+                           end
+               | inr z => inr z
+               end
+    | inr z => inr z
+    end.
+  Proof. reflexivity. Qed.
+
+  Lemma read_value_struct sub r : RV_ sub r DBUS_TYPE_STRUCT =
+    match RECURSE r with
+    | inl s => match sub s with inl xs => inl (VStruct xs) | inr z => inr z end
+    | inr z => inr z
+    end.
+  Proof. reflexivity. Qed.
+
+  Lemma read_value_dict sub r : RV_ sub r DBUS_TYPE_DICT_ENTRY =
+    match RECURSE r with
+    | inl s => match sub s with
+               | inl xs => match xs with [k; x] => inl (VDictE k x) | _ => inr R_GAP end
+               | inr z => inr z
+               end
+    | inr z => inr z
+    end.
+  Proof. reflexivity. Qed.
+
+  Lemma read_value_variant sub r : RV_ sub r DBUS_TYPE_VARIANT =
+    match RECURSE r with
+    | inl s => match get_signature sigz data s with
+               | inl sg => match single_ty sg with
+                           | inl ct => match sub s with
+                                       | inl xs => match xs with [x] => inl (VVar ct x) | _ => inr R_GAP end
+                                       | inr z => inr z
+                                       end
+                           | inr z => inr z
+                           end
+               | inr z => inr z
+               end
+    | inr z => inr z
+    end.
+  Proof. reflexivity. Qed.
+
+  Lemma get_signature_print r t : tygood t = true -> ty_at r (print_ty t) -> get_signature sigz data r = inl (print_ty t).
+  Proof.
+    intros G [tl T]. unfold get_signature. rewrite T, (sig_skip_print t tl G). rewrite take_app by reflexivity. reflexivity.
+  Qed.
+
+  Lemma single_ty_print t : ty_okb t = true -> single_ty (print_ty t) = inl t.
+  Proof. intros H. unfold single_ty. rewrite (parse_sig_print t H). reflexivity. Qed.
+
+  Definition RV (v : val) : Prop :=
+    forall d r, (height v <= d)%nat -> at_val r v -> CT r = inl (code_of (ty_of_val v)) ->
+      RV_ (DUMP d) r (code_of (ty_of_val v)) = inl v.
+
+  Definition loopf (d d' : nat) : nat -> reader -> rr (list val) :=
+    fix loop (n : nat) (r : reader) {struct n} : rr (list val) :=
+      match n with
+      | O => inr R_FUEL
+      | S n' =>
+          match CT r with
+          | inl t => if t =? T_INVALID then inl []
+                     else match RV_ (DUMP d') r t with
+                          | inl v => match RNEXT d r with
+                                     | inl rm => match loop n' (fst rm) with inl rest => inl (v :: rest) | inr z => inr z end
+                                     | inr z => inr z
+                                     end
+                          | inr z => inr z
+                          end
+          | inr z => inr z
+          end
+      end.
+
+  Lemma dump_S d' r : DUMP (S d') r = loopf (S d') d' (loop_fuel data) r.
+  Proof. reflexivity. Qed.
+
+  Lemma loopf_S d d' n r : loopf d d' (S n) r =
+    match CT r with
+    | inl t => if t =? T_INVALID then inl []
+               else match RV_ (DUMP d') r t with
+                    | inl v => match RNEXT d r with
+                               | inl rm => match loopf d d' n (fst rm) with inl rest => inl (v :: rest) | inr z => inr z end
+                               | inr z => inr z
+                               end
+                    | inr z => inr z
+                    end
+    | inr z => inr z
+    end.
+  Proof. reflexivity. Qed.
+
+  Lemma loop_list : forall vs, Forall RV vs -> forall d' n r, (heights vs < S d')%nat -> (length vs < n)%nat -> lvl_ok r vs ->
+    loopf (S d') d' n r = inl vs.
+  Proof.
+    induction 1 as [|x rest Hx Hr IH]; intros d' n r Hh Hn L; (destruct n as [|n]; [lia|]); rewrite loopf_S.
+    - rewrite (ct_nil r L). reflexivity.
+    - rewrite heights_cons in Hh. rewrite (ct_cons r x rest L).
+      pose proof L as (_ & W & _). rewrite (code_of_nonzero _ (rwfs_head_tygood _ _ _ W)).
+      rewrite (Hx d' r ltac:(lia) (lvl_at_val _ _ _ L) (ct_cons r x rest L)).
+      destruct (next_all x (S d') r rest ltac:(lia) L) as (r' & E & L' & _). rewrite E. cbn [fst].
+      rewrite (IH d' n r' ltac:(lia) ltac:(cbn [length] in Hn; lia) L'). reflexivity.
+  Qed.
+
+  Lemma dump_list vs : Forall RV vs -> forall d r, (heights vs < d)%nat -> lvl_ok r vs -> DUMP d r = inl vs.
+  Proof.
+    intros HF d r Hh L. destruct d as [|d']; [lia|]. rewrite dump_S.
+    apply (loop_list vs HF d' _ r Hh); [|exact L]. pose proof (lvl_len r vs L). unfold loop_fuel. lia.
+  Qed.
+
+  Theorem value_all : forall v, RV v.
+  Proof.
+    induction v as [c n|c s|et vs IH|fs IH|k x IHk IHx|t x IHx] using val_ind'; intros d r Hh A HCT.
+    - destruct A as ([rest D] & _ & W). cbn [rwf] in W. destruct (fixed_size c) as [sz|] eqn:E; [|discriminate].
+      cbn [ty_of_val code_of] in *. rewrite (read_value_basic _ r c (fixed_basic c sz E)). unfold read_basic. rewrite HCT.
+      apply (read_basic_num c sz n _ rest E ltac:(lia) D).
+    - destruct A as ([rest D] & _ & W). cbn [rwf] in W. apply andb_true_iff in W. destruct W as [Wz W]. cbn [ty_of_val code_of] in *.
+      destruct (c =? 103) eqn:E.
+      + apply N.eqb_eq in E. subst c. rewrite (read_value_basic _ r 103 eq_refl). unfold read_basic. rewrite HCT.
+        exact (read_basic_sig s _ rest Wz D).
+      + apply andb_true_iff in W. destruct W as [Wc Wl].
+        assert (Hc : c = 115 \/ c = 111) by (apply orb_true_iff in Wc; destruct Wc as [Wc|Wc]; apply N.eqb_eq in Wc; auto).
+        rewrite (read_value_basic _ r c) by (destruct Hc as [-> | ->]; reflexivity). unfold read_basic. rewrite HCT.
+        exact (read_basic_str c s _ rest Hc ltac:(lia) Wz D).
+    - cbn [ty_of_val code_of]. rewrite read_value_arr.
+      destruct (R_array r et vs A) as (sub & Hr & L & _). rewrite Hr.
+      destruct A as (_ & T & W). pose proof (rwf_tygood le _ _ W) as G. cbn [ty_of_val] in T, G.
+      rewrite (get_signature_print r (TArray et) G T).
+      rewrite rwf_arr in W. apply andb_true_iff in W. destruct W as [W _]. apply andb_true_iff in W. destruct W as [W _].
+      apply andb_true_iff in W. destruct W as [Wok _]. rewrite (single_ty_print _ Wok).
+      cbn [height] in Hh. fold (heights vs) in Hh. rewrite (dump_list vs IH d sub ltac:(lia) L). reflexivity.
+    - cbn [ty_of_val code_of]. rewrite read_value_struct.
+      destruct (R_struct r fs A) as (sub & Hr & L & _). rewrite Hr.
+      cbn [height] in Hh. fold (heights fs) in Hh. rewrite (dump_list fs IH d sub ltac:(lia) L). reflexivity.
+    - cbn [ty_of_val code_of]. rewrite read_value_dict.
+      destruct (R_dict r k x A) as (sub & Hr & L & _). rewrite Hr.
+      cbn [height] in Hh.
+      rewrite (dump_list [k; x] (Forall_cons k IHk (Forall_cons x IHx (Forall_nil _))) d sub ltac:(cbn [heights fold_right]; lia) L). reflexivity.
+    - cbn [ty_of_val code_of]. rewrite read_value_variant.
+      destruct (R_variant r t x A) as (sub & Hr & L & K & _). rewrite Hr.
+      destruct A as (_ & _ & W). cbn [rwf] in W. apply andb_true_iff in W. destruct W as [W _]. apply andb_true_iff in W. destruct W as [W _].
+      apply andb_true_iff in W. destruct W as [Wt Wok]. apply ty_eqb_eq in Wt.
+      assert (T : ty_at sub (print_ty t)).
+      { destruct L as (_ & _ & C). rewrite K in C. destruct C as [_ T]. unfold tysig in T. cbn [map flat_map] in T. rewrite app_nil_r, Wt in T.
+        exact (ty_at_head _ _ _ T). }
+      rewrite (get_signature_print sub t (ty_okb_tygood t Wok) T), (single_ty_print t Wok).
+      cbn [height] in Hh.
+      rewrite (dump_list [x] (Forall_cons x IHx (Forall_nil _)) d sub ltac:(cbn [heights fold_right]; lia) L). reflexivity.
+  Qed.
+
+  (* reading from any position of the body, any class of reader *)
+  Theorem dump_correct vs d r : (heights vs < d)%nat -> lvl_ok r vs -> DUMP d r = inl vs.
+  Proof. apply dump_list. apply Forall_forall. intros v _. apply value_all. Qed.
+  (* ---- get_element_count and get_fixed_array ------------------------------------------------------- *)
+  Definition countf (d : nat) : nat -> reader -> N -> rr N :=
+    fix count (n : nat) (s : reader) (acc : N) {struct n} : rr N :=
+      match n with
+      | O => inr R_FUEL
+      | S n' =>
+          match CT s with
+          | inl t => if t =? T_INVALID then inl acc
+                     else match RNEXT d s with
+                          | inl sm => count n' (fst sm) (acc + 1)
+                          | inr z => inr z
+                          end
+          | inr z => inr z
+          end
+      end.
+
+  Lemma element_count_eq d r : element_count le sigz data d r =
+    match CT r with
+    | inl t =>
+        if negb (t =? DBUS_TYPE_ARRAY) then inr R_ASSERT
+        else match element_type sigz data r with
+             | inl et => match RECURSE r with
+                         | inl arr =>
+                             if type_fixed et then
+                               match type_align et with
+                               | inl al => match array_len le data arr with inl total => inl (total / al) | inr z => inr z end
+                               | inr z => inr z
+                               end
+                             else countf d (loop_fuel data) arr 0
+                         | inr z => inr z
+                         end
+             | inr z => inr z
+             end
+    | inr z => inr z
+    end.
+  Proof. reflexivity. Qed.
+
+  Lemma countf_S d n s acc : countf d (S n) s acc =
+    match CT s with
+    | inl t => if t =? T_INVALID then inl acc
+               else match RNEXT d s with
+                    | inl sm => countf d n (fst sm) (acc + 1)
+                    | inr z => inr z
+                    end
+    | inr z => inr z
+    end.
+  Proof. reflexivity. Qed.
+
+  Lemma count_list : forall vs d n s acc, (heights vs < d)%nat -> (length vs < n)%nat -> lvl_ok s vs ->
+    countf d n s acc = inl (acc + N.of_nat (length vs)).
+  Proof.
+    induction vs as [|x rest IH]; intros d n s acc Hh Hn L; (destruct n as [|n]; [lia|]); rewrite countf_S.
+    - rewrite (ct_nil s L). cbn. f_equal. lia.
+    - rewrite heights_cons in Hh. rewrite (ct_cons s x rest L).
+      pose proof L as (_ & W & _). rewrite (code_of_nonzero _ (rwfs_head_tygood _ _ _ W)).
+      destruct (next_all x d s rest ltac:(lia) L) as (r' & E & L' & _). rewrite E. cbn [fst].
+      rewrite (IH d n r' (acc + 1) ltac:(lia) ltac:(cbn [length] in Hn; lia) L'). f_equal. cbn [length]. lia.
+  Qed.
+
+  Lemma fixed_code_ty et : tygood et = true -> type_fixed (code_of et) = true -> exists c sz, et = TBasic c /\ fixed_size c = Some sz.
+  Proof.
+    destruct et as [c| | | | ]; cbn [code_of]; intros G F; try (vm_compute in F; discriminate).
+    destruct (type_fixed_size c F) as [sz E]. eauto.
+  Qed.
+
+  Lemma fixed_len c sz : fixed_size c = Some sz ->
+    forall vs start, start mod sz = 0 -> rwfs le vs start = true -> forallb (fun x => ty_eqb (ty_of_val x) (TBasic c)) vs = true ->
+      encs le vs start = flat_map (fun n => bytes_of le (N.to_nat sz) n) (nums_of vs) /\
+      nlen (encs le vs start) = N.of_nat (length vs) * sz /\ length (nums_of vs) = length vs.
+  Proof.
+    intros Hsz. destruct (fixed_tables c sz Hsz) as (_ & _ & Hs).
+    induction vs as [|x r IH]; intros start Hal Hw Ht.
+    - cbn. repeat split; lia.
+    - cbn [rwfs] in Hw. apply andb_true_iff in Hw. destruct Hw as [Hwx Hwr].
+      cbn [forallb] in Ht. apply andb_true_iff in Ht. destruct Ht as [Htx Htr]. apply ty_eqb_eq in Htx.
+      destruct x as [c' n|c' s0| | | | ]; cbn [ty_of_val] in Htx; try discriminate.
+      + inversion Htx; subst c'.
+        assert (He : enc le (VNum c n) start = bytes_of le (N.to_nat sz) n).
+        { rewrite enc_num, Hsz. rewrite (aligned_no_pad start sz Hs Hal). reflexivity. }
+        assert (Hl : nlen (enc le (VNum c n) start) = sz) by (rewrite He, bytes_of_length; lia).
+        rewrite Hl in Hwr.
+        destruct (IH (start + sz) (aligned_step start sz Hs Hal) Hwr Htr) as (E1 & E2 & E3).
+        cbn [encs nums_of flat_map length]. rewrite Hl, He, E1. repeat split.
+        * rewrite nlen_app, bytes_of_length. rewrite <- E1, E2. lia.
+        * lia.
+      + inversion Htx; subst c'. exfalso. cbn [rwf] in Hwx. apply andb_true_iff in Hwx. destruct Hwx as [_ Hwx].
+        destruct (c =? 103) eqn:E3; [apply N.eqb_eq in E3; subst c; discriminate|].
+        apply andb_true_iff in Hwx. destruct Hwx as [Hc _]. apply orb_true_iff in Hc. destruct Hc as [Hc|Hc]; apply N.eqb_eq in Hc; subst c; discriminate.
+  Qed.
+
+  Lemma arr_start_aligned p et : (spec_align et = 1 \/ spec_align et = 2 \/ spec_align et = 4 \/ spec_align et = 8) ->
+    arr_start p et mod spec_align et = 0.
+  Proof. intros S. unfold arr_start. apply aligned_after_pad. exact S. Qed.
+
+  Theorem element_count_ok d r et vs rest : (height (VArr et vs) < d)%nat -> lvl_ok r (VArr et vs :: rest) ->
+    element_count le sigz data d r = inl (N.of_nat (length vs)).
+  Proof.
+    intros Hh L. pose proof (lvl_at_val _ _ _ L) as A. rewrite element_count_eq, (ct_cons r _ _ L). cbn [ty_of_val code_of].
+    change (negb (DBUS_TYPE_ARRAY =? DBUS_TYPE_ARRAY)) with false. cbv iota.
+    destruct (skip_array_val r et vs A) as (E1 & _). unfold element_type. rewrite E1.
+    destruct (R_array r et vs A) as (sub & Hr & Ls & Ks & Vs & Ss & _). rewrite Hr.
+    pose proof A as (_ & _ & W). pose proof (rwf_tygood le _ _ W) as G. cbn [ty_of_val tygood] in G.
+    destruct (type_fixed (code_of et)) eqn:F.
+    - destruct (fixed_code_ty et G F) as (c & sz & -> & Hsz). destruct (type_align_code _ G) as [Al S]. rewrite Al.
+      cbn [spec_align] in *. rewrite Hsz in *.
+      pose proof Ls as (_ & Ws & C). rewrite Ks in C. destruct C as [_ (et' & L0 & Ht & _ & _ & H1 & H2 & H3 & H4 & H5 & H6)].
+      rewrite (array_len_of sub L0 H1 H2 H3 H4). f_equal.
+      rewrite rwf_arr in W. apply andb_true_iff in W. destruct W as [W _]. apply andb_true_iff in W. destruct W as [W _].
+      apply andb_true_iff in W. destruct W as [_ Wt].
+      rewrite Vs in *. rewrite Ss in *.
+      pose proof (arr_start_aligned (r_vpos r) (TBasic c)) as Hal. cbn [spec_align] in Hal. rewrite Hsz in Hal. specialize (Hal S).
+      destruct (fixed_len c sz Hsz vs _ Hal Ws Wt) as (_ & E2 & _).
+      assert (L0 = N.of_nat (length vs) * sz) by lia. subst L0. apply N.div_mul. lia.
+    - cbn [height] in Hh. fold (heights vs) in Hh.
+      rewrite (count_list vs d (loop_fuel data) sub 0 ltac:(lia) ltac:(pose proof (lvl_len _ _ Ls); unfold loop_fuel; lia) Ls). f_equal.
+  Qed.
+
+  Theorem fixed_array_ok r c sz vs : fixed_size c = Some sz -> at_val r (VArr (TBasic c) vs) ->
+    exists sub, RECURSE r = inl sub /\
+      read_fixed_multi le sigz data sub = inl (encs le vs (arr_start (r_vpos r) (TBasic c)), N.of_nat (length vs)) /\
+      encs le vs (arr_start (r_vpos r) (TBasic c)) = flat_map (fun n => bytes_of le (N.to_nat sz) n) (nums_of vs) /\
+      length (nums_of vs) = length vs.
+  Proof.
+    intros Hsz A. destruct (R_array r _ vs A) as (sub & Hr & Ls & Ks & Vs & Ss & _ & _ & [tl T]). exists sub. split; [exact Hr|].
+    pose proof A as (_ & _ & W). pose proof (rwf_tygood le _ _ W) as G. cbn [ty_of_val tygood] in G.
+    destruct (type_align_code (TBasic c) G) as [Al S]. cbn [spec_align code_of] in *. rewrite Hsz in *.
+    pose proof Ls as ([rest Ds] & Ws & C). rewrite Ks in C. destruct C as [_ (et' & L0 & Ht & _ & _ & H1 & H2 & H3 & H4 & H5 & H6)].
+    rewrite rwf_arr in W. apply andb_true_iff in W. destruct W as [W _]. apply andb_true_iff in W. destruct W as [W _].
+    apply andb_true_iff in W. destruct W as [_ Wt].
+    pose proof (arr_start_aligned (r_vpos r) (TBasic c)) as Hal. cbn [spec_align] in Hal. rewrite Hsz in Hal. specialize (Hal S).
+    pose proof (array_len_of sub L0 H1 H2 H3 H4) as AL.
+    rewrite Vs, Ss in *.
+    destruct (fixed_len c sz Hsz vs _ Hal Ws Wt) as (E1 & E2 & E3).
+    split; [|split; [exact E1 | exact E3]].
+    unfold read_fixed_multi. rewrite Ks. rewrite (first_type_print _ _ (TBasic c) _ G T). cbn [code_of].
+    destruct (fixed_tables c sz Hsz) as (Fx & _ & _).
+    replace (c =? T_INVALID) with false by (destruct (basic_code_ne c G) as (_ & _ & _ & _ & _ & _ & ?); unfold T_INVALID; lia).
+    rewrite Fx. cbn [negb]. rewrite Al. rewrite Vs, Ss. rewrite N.leb_refl. cbn [negb].
+    rewrite AL.
+    assert (HL : L0 = N.of_nat (length vs) * sz) by lia. rewrite HL.
+    replace (arr_start (r_vpos r) (TBasic c) + N.of_nat (length vs) * sz <? arr_start (r_vpos r) (TBasic c)) with false by lia.
+    replace (arr_start (r_vpos r) (TBasic c) + N.of_nat (length vs) * sz - arr_start (r_vpos r) (TBasic c)) with (N.of_nat (length vs) * sz) by lia.
+    rewrite N.leb_refl. cbn [negb]. rewrite N.mod_mul by lia. cbn [N.eqb negb].
+    destruct vs as [|x xs].
+    - cbn [length N.of_nat N.mul N.eqb]. cbn. reflexivity.
+    - replace (N.of_nat (length (x :: xs)) * sz =? 0) with false by (cbn [length]; lia).
+      rewrite Ds. rewrite take_app by (rewrite E2; reflexivity). rewrite N.div_mul by lia. reflexivity.
+  Qed.
+End Machine.
+
+(* ================= E. whole bodies ======================================================= *)
+Lemma init_lvl_ok le sg pre vs rest : rwfs le vs (nlen pre) = true -> sg = tysig vs ->
+  lvl_ok le (sg ++ [0]) (pre ++ encs le vs (nlen pre) ++ rest) (reader_init 0 (nlen pre)) vs.
+Proof.
+  intros W ->. unfold lvl_ok, reader_init. rsimp. split; [|split; [exact W|split; [reflexivity|]]].
+  - exists rest. unfold bytes_from. apply skipn_nlen_app.
+  - unfold ty_at, tstr. rsimp. exists []. rewrite app_nil_r. reflexivity.
+Qed.
+
+(* the reader on the canonical encoding of any values it can make sense of, placed anywhere in a
+   buffer and followed by anything: no Fault, no failed assertion, exactly the values *)
+Theorem reader_rwf_at le pre vs rest d : rwfs le vs (nlen pre) = true -> (heights vs < d)%nat ->
+  dump le (tysig vs ++ [0]) (pre ++ encs le vs (nlen pre) ++ rest) d (reader_init 0 (nlen pre)) = inl vs.
+Proof. intros W Hd. apply dump_correct; [exact Hd|]. apply init_lvl_ok; [exact W | reflexivity]. Qed.
+
+Theorem reader_rwf le vs : rwfs le vs 0 = true -> read_all le (tysig vs) (encs le vs 0) = inl vs.
+Proof.
+  intros W. unfold read_all.
+  pose proof (reader_rwf_at le [] vs [] (depth_fuel (tysig vs) (encs le vs 0)) W) as H. cbn [app nlen length N.of_nat] in H.
+  rewrite app_nil_r in H. apply H. pose proof (heights_bound le vs 0 W). unfold depth_fuel. lia.
+Qed.
+
+(* (1) for ALL values that are well formed per the specification *)
+Theorem reader_correct le vs : wfsb le vs 0 0 = true -> forallb ty_okb (map ty_of_val vs) = true ->
+  read_all le (flat_map print_ty (map ty_of_val vs)) (encs le vs 0) = inl vs.
+Proof. intros W T. apply (reader_rwf le vs). exact (wfsb_rwfs le vs 0 0 W T). Qed.
+
+(* the premise on the types is needed only for the element types of EMPTY arrays, which [wfb] leaves
+   unconstrained: recursing into an empty array of a non-type trips _dbus_type_get_alignment's assertion *)
+Example reader_needs_types :
+  wfsb true [VArr (TBasic 0) []] 0 0 = true /\
+  read_all true (flat_map print_ty (map ty_of_val [VArr (TBasic 0) []])) (encs true [VArr (TBasic 0) []] 0) = inr R_ASSERT.
+Proof. split; vm_compute; reflexivity. Qed.
+
+(* (2) for EVERY body the validator model accepts (no exclusion: neither F11 nor FD65 matters to the reader):
+   the values read through the iterator are exactly the values whose canonical encoding the body is *)
+Theorem reader_after_validation le sg tys body :
+  parse_sig sg = Some tys -> all_bytes body = true -> validate_body le tys body = V_VALID ->
+  exists vs, map ty_of_val vs = tys /\ wfxs le vs 0 0 = true /\ body = encs le vs 0 /\ read_all le sg body = inl vs.
+Proof.
+  intros P B V. destruct (validate_body_sound_sig le sg tys body P B V) as (vs & Ht & Hw & _ & E).
+  exists vs. split; [exact Ht|]. split; [exact Hw|]. split; [exact E|].
+  apply parse_sig_sound in P. destruct P as [-> Hok]. rewrite <- Ht in *. rewrite E.
+  apply (reader_rwf le vs). exact (wfxs_rwfs_all le vs 0 0 Hw Hok).
+Qed.
+
+(* outside the two recorded deviations of the validator the values are well formed per the specification
+   and are what the specification decoder returns *)
+Corollary reader_after_validation_spec le sg tys body :
+  parse_sig sg = Some tys -> all_bytes body = true -> validate_body le tys body = V_VALID ->
+  exists vs, read_all le sg body = inl vs /\ body = encs le vs 0 /\
+             (forallb (nodev 0) vs = true -> wfsb le vs 0 0 = true /\ dec_seq le tys 0 body = Some (vs, nlen body, [])).
+Proof.
+  intros P B V. destruct (reader_after_validation le sg tys body P B V) as (vs & Ht & Hw & E & R).
+  exists vs. split; [exact R|]. split; [exact E|]. intros Hn.
+  pose proof (wfxs_wfsb_all le vs 0 0 Hn Hw) as Hwf. split; [exact Hwf|].
+  pose proof (dec_seq_encs le vs 0 [] Hwf) as D. rewrite app_nil_r, Ht, <- E in D. rewrite D, N.add_0_l. reflexivity.
+Qed.
+
+(* (3) reader = specification decoder: whatever the decoder decodes from a whole body, the reader reads *)
+Theorem reader_eq_decoder le sg tys body vs p :
+  parse_sig sg = Some tys -> all_bytes body = true -> dec_seq le tys 0 body = Some (vs, p, []) ->
+  read_all le sg body = inl vs.
+Proof.
+  intros P B D. destruct (dec_seq_sound le tys 0 body vs p [] (parse_sig_tygood sg tys P) B D) as (Ht & Hw & E & _).
+  rewrite app_nil_r in E. apply parse_sig_sound in P. destruct P as [-> Hok]. rewrite <- Ht in *. rewrite E.
+  exact (reader_correct le vs Hw Hok).
+Qed.
+
+(* (3') whole messages.  A loosely well-formed abstract message (the loader model accepts exactly the
+   encodings of those: WireClean2.loader_characterisation): the reader, started on its body with its
+   signature, reads exactly its body values *)
+Theorem reader_msg m : wf_msg_x m = true ->
+  read_all (s_le m) (s_sig m) (encs (s_le m) (s_body m) 0) = inl (s_body m).
+Proof.
+  intros W. unfold wf_msg_x in W. cbv zeta in W. repeat (apply andb_true_iff in W; destruct W as [W ?]).
+  destruct (parse_sig (s_sig m)) as [tys|] eqn:P; [|discriminate].
+  match goal with H : context [tys] |- _ => apply tys_eq_list in H; subst tys end.
+  apply parse_sig_sound in P. destruct P as [E Hok]. rewrite E.
+  apply (reader_rwf (s_le m) (s_body m)). apply (wfxs_rwfs_all (s_le m) (s_body m) 0 0); assumption.
+Qed.
+
+(* every message the loader model queues from a buffer of bytes IS the canonical encoding of an abstract
+   message m, its body part is the encoding of m's body values, and the reader -- initialised as
+   dbus_message_iter_init does, on the body with the message's signature -- reads exactly those values *)
+Theorem reader_loaded le fl hl bl fds d msg :
+  all_bytes d = true -> have_message max_message d = HaveOk le fl hl bl true ->
+  load_message le fl hl bl fds d = inl msg ->
+  exists m, m_header msg ++ m_body msg = spec_encode_message m /\ s_le m = le /\ wf_msg_x m = true /\
+            m_body msg = encs le (s_body m) 0 /\ read_all le (s_sig m) (m_body msg) = inl (s_body m).
+Proof.
+  intros Hb Hh Hl.
+  destruct (load_message_sound_x max_message le fl hl bl fds d msg ltac:(lia) Hb Hh Hl) as (m & E & Hle & _ & W & F).
+  exists m. split; [exact E|]. split; [exact Hle|]. split; [exact W|].
+  pose proof (load_message_bytes _ _ _ _ _ _ _ Hl) as Eb. unfold msg_bytes in Eb.
+  assert (Hd : d = spec_encode_message m ++ skipn (N.to_nat (hl + bl)) d) by (rewrite <- E, Eb; symmetry; apply firstn_skipn).
+  destruct (loader_complete_loose m (skipn (N.to_nat (hl + bl)) d) fds W F) as (Hh' & hs & _ & Hload & _). cbv zeta in *.
+  rewrite <- Hd in Hh', Hload. change DBUS_MAXIMUM_MESSAGE_LENGTH with max_message in Hh'. rewrite Hh in Hh'.
+  injection Hh' as -> -> -> ->. rewrite Hl in Hload. injection Hload as ->. cbn [m_body]. unfold m_bodyb.
+  split; [reflexivity|]. exact (reader_msg m W).
+Qed.
+
+(* (4) dbus_message_iter_get_element_count of the first argument = the length of the array *)
+Theorem element_count_correct le et xs rest : rwfs le (VArr et xs :: rest) 0 = true ->
+  first_element_count le (tysig (VArr et xs :: rest)) (encs le (VArr et xs :: rest) 0) = inl (N.of_nat (length xs)).
+Proof.
+  intros W. unfold first_element_count.
+  pose proof (init_lvl_ok le _ [] (VArr et xs :: rest) [] W eq_refl) as L. cbn [app nlen length N.of_nat] in L. rewrite app_nil_r in L.
+  apply (element_count_ok le _ _ _ _ et xs rest); [|exact L].
+  pose proof (heights_bound le _ 0 W) as Hb. rewrite heights_cons in Hb. unfold depth_fuel. lia.
+Qed.
+
+(* (5) recurse + dbus_message_iter_get_fixed_array on an array of fixed-size elements: the block returned is
+   exactly the elements' bytes (in the message's byte order), and the count is the number of elements *)
+Theorem fixed_array_correct le c sz xs rest : fixed_size c = Some sz -> rwfs le (VArr (TBasic c) xs :: rest) 0 = true ->
+  first_fixed_array le (tysig (VArr (TBasic c) xs :: rest)) (encs le (VArr (TBasic c) xs :: rest) 0) =
+    inl (flat_map (fun n => bytes_of le (N.to_nat sz) n) (nums_of xs), N.of_nat (length xs)) /\
+  length (nums_of xs) = length xs.
+Proof.
+  intros Hsz W. unfold first_fixed_array.
+  pose proof (init_lvl_ok le _ [] (VArr (TBasic c) xs :: rest) [] W eq_refl) as L. cbn [app nlen length N.of_nat] in L. rewrite app_nil_r in L.
+  destruct (fixed_array_ok le _ _ _ c sz xs Hsz (lvl_at_val le _ _ _ _ _ L)) as (sub & Hr & Hf & E & El).
+  rewrite Hr, Hf, E. split; [reflexivity | exact El].
+Qed.
+
+(* ================= F. non-vacuity ============================================================ *)
+Definition ex_vals : list val :=
+  [VNum 121 7;
+   VArr (TStruct [TBasic 121; TVariant]) [VStruct [VNum 121 1; VVar (TBasic 115) (VStr 115 [104; 105])];
+                                          VStruct [VNum 121 2; VVar (TArray (TBasic 120)) (VArr (TBasic 120) [VNum 120 5; VNum 120 6])]];
+   VArr (TDict 115 (TBasic 117)) [VDictE (VStr 115 [97]) (VNum 117 9)];
+   VArr (TBasic 116) [];
+   VStr 103 [97; 123; 115; 118; 125]].
+
+Example ex_vals_wf : wfsb true ex_vals 0 0 = true /\ wfsb false ex_vals 0 0 = true /\ forallb ty_okb (map ty_of_val ex_vals) = true.
+Proof. repeat split; vm_compute; reflexivity. Qed.
+
+Example ex_read_le : read_all true (tysig ex_vals) (encs true ex_vals 0) = inl ex_vals.
+Proof. vm_compute. reflexivity. Qed.
+Example ex_read_be : read_all false (tysig ex_vals) (encs false ex_vals 0) = inl ex_vals.
+Proof. vm_compute. reflexivity. Qed.
+
+(* the Fault is real: the same bytes cut short make the reader run off the end *)
+Example ex_fault : read_all true (tysig ex_vals) (firstn 20 (encs true ex_vals 0)) = inr R_FAULT.
+Proof. vm_compute. reflexivity. Qed.
+(* ... and the validator model rejects that buffer, so [reader_after_validation] does not cover it *)
+Example ex_fault_invalid : validate_body true (map ty_of_val ex_vals) (firstn 20 (encs true ex_vals 0)) <> V_VALID.
+Proof. vm_compute. discriminate. Qed.
+
+Example ex_validated : validate_body true (map ty_of_val ex_vals) (encs true ex_vals 0) = V_VALID /\
+                       parse_sig (tysig ex_vals) = Some (map ty_of_val ex_vals) /\ all_bytes (encs true ex_vals 0) = true.
+Proof. repeat split; vm_compute; reflexivity. Qed.
+
+Example ex_count : first_element_count true (tysig (tl ex_vals)) (encs true (tl ex_vals) 0) = inl 2.
+Proof. vm_compute. reflexivity. Qed.
+Example ex_fixed : first_fixed_array false [97; 110] (encs false [VArr (TBasic 110) [VNum 110 258; VNum 110 3]] 0) = inl ([1; 2; 0; 3], 2).
+Proof. vm_compute. reflexivity. Qed.
+
+Print Assumptions reader_rwf_at.
+Print Assumptions reader_correct.
+Print Assumptions reader_after_validation.
+Print Assumptions reader_after_validation_spec.
+Print Assumptions reader_eq_decoder.
+Print Assumptions reader_loaded.
+Print Assumptions element_count_correct.
+Print Assumptions fixed_array_correct.
